@@ -1,5 +1,8 @@
 (** Pickle/EncodesProofs.v - every encoding in the class [accepts] decodes, on the
-    restricted-unpickler model, to the payload it was checked against. *)
+    restricted-unpickler model, to the payload it was checked against.  The invariant [inv]
+    relates the checker's logical memo to the machine's memo; [pend] lists the identities of
+    the containers being filled: no completed object contains one of them, so a shared list /
+    dict / set fetched from the memo is never disturbed by later mutation. *)
 From Coq Require Import List ZArith NArith Bool Arith Lia.
 Import ListNotations.
 From DD Require Import Base.Sx Base.PyStr Base.Value Pickle.Vm Pickle.Codec Pickle.PickleProofs Pickle.CodecProofs Pickle.Encodes.
@@ -166,102 +169,285 @@ Proof.
   destruct (Z.eqb j k); [reflexivity | apply IH; exact H].
 Qed.
 
+
+(** * occurrences of an identity *)
+
+Fixpoint occurs (i : nat) (o : obj) {struct o} : bool :=
+  match o with
+  | OTuple xs | OFrozen xs => existsb (occurs i) xs
+  | OList j xs | OSet j xs => Nat.eqb i j || existsb (occurs i) xs
+  | ODict j kvs => Nat.eqb i j || existsb (fun kv => occurs i (fst kv) || occurs i (snd kv)) kvs
+  | OInst j _ f a sts => Nat.eqb i j || occurs i f || occurs i a || existsb (occurs i) sts
+  | _ => false
+  end.
+
+Lemma map_id_noccur : forall (g : obj -> obj) (f : obj -> bool) xs,
+  Forall (fun x => f x = false -> g x = x) xs -> existsb f xs = false -> map g xs = xs.
+Proof.
+  intros g f xs H. induction H as [|x r Hx Hr IH]; cbn; [reflexivity|].
+  intro E. apply orb_false_iff in E. destruct E as [E1 E2]. rewrite (Hx E1), (IH E2). reflexivity.
+Qed.
+
+Lemma subst_noccur : forall i c o, occurs i o = false -> subst i c o = o.
+Proof.
+  intros i c. induction o using obj_ind'; cbn [occurs subst]; intro Hn; try reflexivity.
+  - f_equal. apply (map_id_noccur _ (occurs i)); assumption.
+  - f_equal. apply (map_id_noccur _ (occurs i)); assumption.
+  - apply orb_false_iff in Hn. destruct Hn as [He Hx]. rewrite He. f_equal. apply (map_id_noccur _ (occurs i)); assumption.
+  - apply orb_false_iff in Hn. destruct Hn as [He Hx]. rewrite He. f_equal.
+    revert Hx. induction H as [|kv r [Hk Hv] Hr IH]; cbn; [reflexivity|].
+    intro E. apply orb_false_iff in E. destruct E as [E1 E2]. apply orb_false_iff in E1. destruct E1 as [Ek Ev].
+    rewrite (Hk Ek), (Hv Ev), (IH E2). destruct kv; reflexivity.
+  - apply orb_false_iff in Hn. destruct Hn as [He Hx]. rewrite He. f_equal. apply (map_id_noccur _ (occurs i)); assumption.
+  - apply orb_false_iff in Hn. destruct Hn as [Hn Hs]. apply orb_false_iff in Hn. destruct Hn as [Hn Ha].
+    apply orb_false_iff in Hn. destruct Hn as [He Hf]. rewrite He, (IHo1 Hf), (IHo2 Ha). f_equal.
+    apply (map_id_noccur _ (occurs i)); assumption.
+Qed.
+
+Lemma existsb_false_forall : forall (f g : obj -> bool) xs,
+  Forall (fun x => g x = true -> f x = false) xs -> forallb g xs = true -> existsb f xs = false.
+Proof.
+  intros f g xs H. induction H as [|x r Hx Hr IH]; cbn; [reflexivity|].
+  intro E. apply andb_true_iff in E. destruct E as [E1 E2]. rewrite (Hx E1), (IH E2). reflexivity.
+Qed.
+
+Lemma ltb_neq' : forall i j n, Nat.ltb j n = true -> n <= i -> Nat.eqb i j = false.
+Proof. intros i j n H Hle. apply Nat.ltb_lt in H. apply Nat.eqb_neq. lia. Qed.
+
+(* an identity at or above the bound does not occur *)
+Lemma below_noccur : forall n i, n <= i -> forall o, ids_below n o = true -> occurs i o = false.
+Proof.
+  intros n i Hle. induction o using obj_ind'; cbn [ids_below occurs]; intro Hb; try reflexivity.
+  - apply (existsb_false_forall _ (ids_below n)); assumption.
+  - apply (existsb_false_forall _ (ids_below n)); assumption.
+  - apply andb_true_iff in Hb. destruct Hb as [Hl Hx]. rewrite (ltb_neq' _ _ _ Hl Hle). cbn.
+    apply (existsb_false_forall _ (ids_below n)); assumption.
+  - apply andb_true_iff in Hb. destruct Hb as [Hl Hx]. rewrite (ltb_neq' _ _ _ Hl Hle). cbn.
+    revert Hx. induction H as [|kv r [Hk Hv] Hr IH]; cbn; [reflexivity|].
+    intro E. apply andb_true_iff in E. destruct E as [E1 E2]. apply andb_true_iff in E1. destruct E1 as [Ek Ev].
+    rewrite (Hk Ek), (Hv Ev), (IH E2). reflexivity.
+  - apply andb_true_iff in Hb. destruct Hb as [Hl Hx]. rewrite (ltb_neq' _ _ _ Hl Hle). cbn.
+    apply (existsb_false_forall _ (ids_below n)); assumption.
+  - apply andb_true_iff in Hb. destruct Hb as [Hb Hs]. apply andb_true_iff in Hb. destruct Hb as [Hb Ha].
+    apply andb_true_iff in Hb. destruct Hb as [Hl Hf].
+    rewrite (ltb_neq' _ _ _ Hl Hle), (IHo1 Hf), (IHo2 Ha). cbn. apply (existsb_false_forall _ (ids_below n)); assumption.
+Qed.
+
+Definition noccur_all (pend : list nat) (o : obj) : bool := forallb (fun j => negb (occurs j o)) pend.
+
+Lemma noccur_all_below : forall pend n o, ids_below n o = true -> Forall (fun j => n <= j) pend -> noccur_all pend o = true.
+Proof.
+  intros pend n o Hb H. unfold noccur_all. induction H as [|j r Hj Hr IH]; cbn; [reflexivity|].
+  rewrite (below_noccur n j Hj o Hb), IH. reflexivity.
+Qed.
+Lemma noccur_all_noids : forall pend o, noids o = true -> noccur_all pend o = true.
+Proof.
+  intros pend o H. unfold noccur_all. apply forallb_forall. intros j _.
+  rewrite (below_noccur 0 j (Nat.le_0_l j) o (noids_below 0 o H)). reflexivity.
+Qed.
+Lemma noccur_all_in : forall pend o i, noccur_all pend o = true -> In i pend -> occurs i o = false.
+Proof.
+  intros pend o i H Hin. unfold noccur_all in H. rewrite forallb_forall in H. apply negb_true_iff. apply H. exact Hin.
+Qed.
+Lemma noccur_all_cons : forall i pend o, noccur_all (i :: pend) o = true -> noccur_all pend o = true.
+Proof. intros i pend o H. cbn in H. apply andb_true_iff in H. apply H. Qed.
+
 (** * the invariant between checker state and machine state *)
 
-Definition inv (cs : cstate) (st : state) : Prop :=
-  fresh_state st /\ map fst (memo st) = snd cs /\
-  (forall i v, lm_get i (fst cs) = Some v -> idfree v = true /\ memo_get i (memo st) = Some (canon_obj v)).
+(* [pend]: the identities of the containers that are being filled right now.  No completed object
+   the checker knows about contains one of them, so filling them (mutation through [subst])
+   leaves every known memo entry alone. *)
+Definition known_ok (pend : list nat) (m : list (Z * obj)) (i : Z) (v : pv) : Prop :=
+  exists o, memo_get i m = Some o /\ decode o = Some v /\ (idfree v = true -> o = canon_obj v) /\
+            noccur_all pend o = true.
 
-Lemma inv_stack : forall cs st s n, inv cs st -> next st <= n ->
+Definition inv (cs : cstate) (pend : list nat) (st : state) : Prop :=
+  fresh_state st /\ map fst (memo st) = snd cs /\
+  (forall i v, lm_get i (fst cs) = Some v -> known_ok pend (memo st) i v).
+
+Definition memo_ext (st st' : state) : Prop :=
+  forall idx o, memo_get idx (memo st) = Some o -> memo_get idx (memo st') = Some o.
+Lemma memo_ext_refl : forall st, memo_ext st st.
+Proof. intros st idx o H. exact H. Qed.
+Lemma memo_ext_trans : forall a b c, memo_ext a b -> memo_ext b c -> memo_ext a c.
+Proof. intros a b c H1 H2 idx o H. apply H2. apply H1. exact H. Qed.
+Lemma memo_ext_same : forall st st', memo st' = memo st -> memo_ext st st'.
+Proof. intros st st' E idx o H. rewrite E. exact H. Qed.
+
+Lemma inv_stack : forall cs pend st s n, inv cs pend st -> next st <= n ->
   forallb (ids_below n) s = true ->
-  inv cs (mkState s (memo st) n (ecache st) (trace st)).
+  inv cs pend (mkState s (memo st) n (ecache st) (trace st)).
 Proof.
-  intros cs st s n [[Hs Hm] [Hk Ha]] Hle Hb. split; [|split]; cbn.
+  intros cs pend st s n [[Hs Hm] [Hk Ha]] Hle Hb. split; [|split]; cbn.
   - split; cbn; [exact Hb | apply (memo_mono _ _ _ Hle Hm)].
   - exact Hk.
   - exact Ha.
 Qed.
 
-Lemma inv_trace : forall cs s m n e t t', inv cs (mkState s m n e t) -> inv cs (mkState s m n e t').
-Proof. intros cs s m n e t t' H. exact H. Qed.
+Lemma inv_trace : forall cs pend s m n e t t', inv cs pend (mkState s m n e t) -> inv cs pend (mkState s m n e t').
+Proof. intros cs pend s m n e t t' H. exact H. Qed.
 
-Lemma inv_mutate : forall cs st i c, inv cs st -> ids_below (next st) c = true -> inv cs (mutate i c st).
+Lemma inv_weaken : forall cs i pend st, inv cs (i :: pend) st -> inv cs pend st.
 Proof.
-  intros cs st i c [[Hs Hm] [Hk Ha]] Hc. split; [|split]; cbn.
+  intros cs i pend st [Hf [Hk Ha]]. split; [exact Hf|]. split; [exact Hk|].
+  intros j v Hj. destruct (Ha j v Hj) as [o [Hg [Hd [Hc Hn]]]]. exists o. repeat split; try assumption.
+  apply (noccur_all_cons i). exact Hn.
+Qed.
+
+(* a container created now has an identity that occurs nowhere yet *)
+Lemma inv_enter : forall cs pend st i, inv cs pend st -> next st <= i -> inv cs (i :: pend) st.
+Proof.
+  intros cs pend st i [[Hs Hm] [Hk Ha]] Hle. split; [split; assumption|]. split; [exact Hk|].
+  intros j v Hj. destruct (Ha j v Hj) as [o [Hg [Hd [Hc Hn]]]]. exists o. repeat split; try assumption.
+  unfold noccur_all in *. cbn [forallb]. rewrite Hn, andb_true_r. apply negb_true_iff. apply (below_noccur (next st) i Hle).
+  clear - Hm Hg. induction (memo st) as [|[k x] r IH]; cbn in *; [discriminate|].
+  apply andb_true_iff in Hm. destruct Hm as [H1 H2]. destruct (Z.eqb j k); [inversion Hg; subst; exact H1 | apply IH; assumption].
+Qed.
+
+Lemma inv_mutate : forall cs pend st i c, inv cs pend st -> In i pend -> ids_below (next st) c = true ->
+  inv cs pend (mutate i c st).
+Proof.
+  intros cs pend st i c [[Hs Hm] [Hk Ha]] Hin Hc. split; [|split]; cbn.
   - split; cbn.
     + apply forallb_map_imp; [|exact Hs]. apply Forall_forall. intros x _. apply subst_ids_below. exact Hc.
     + clear - Hm Hc. induction (memo st) as [|[j x] r IH]; cbn in *; [reflexivity|].
       apply andb_true_iff in Hm. destruct Hm as [H1 H2]. rewrite (subst_ids_below _ i c Hc x H1), (IH H2). reflexivity.
   - rewrite map_map. cbn. exact Hk.
-  - intros j v Hj. destruct (Ha j v Hj) as [Hf Hg]. split; [exact Hf|].
-    rewrite memo_get_map_subst, Hg. cbn. rewrite (noids_subst i c _ (canon_noids v Hf)). reflexivity.
+  - intros j v Hj. destruct (Ha j v Hj) as [o [Hg [Hd [Hcn Hn]]]]. exists o.
+    rewrite memo_get_map_subst, Hg. cbn. rewrite (subst_noccur i c o (noccur_all_in _ _ _ Hn Hin)). auto.
+Qed.
+
+Lemma inv_push : forall cs pend st o, inv cs pend st -> ids_below (next st) o = true -> inv cs pend (push o st).
+Proof.
+  intros cs pend st o H Ho. unfold push, set_stack. apply inv_stack; [exact H | lia|].
+  cbn. rewrite Ho. destruct H as [[Hs _] _]. exact Hs.
+Qed.
+Lemma inv_emit : forall cs pend st e, inv cs pend st -> inv cs pend (emit e st).
+Proof. intros cs pend st e H. exact H. Qed.
+Lemma inv_keys_len : forall cs pend st, inv cs pend st -> List.length (memo st) = List.length (snd cs).
+Proof. intros cs pend st [_ [Hk _]]. rewrite <- Hk, map_length. reflexivity. Qed.
+Lemma inv_set_stack_sub : forall cs pend st s, inv cs pend st ->
+  forallb (ids_below (next st)) s = true -> inv cs pend (set_stack st s).
+Proof. intros cs pend st s H Hs. unfold set_stack. apply inv_stack; [exact H | lia | exact Hs]. Qed.
+
+(* the object completed under a reserved index is entered into the logical memo *)
+Lemma inv_record : forall cs pend st pidx v o,
+  inv cs pend st -> (forall idx, pidx = Some idx -> memo_get idx (memo st) = Some o) ->
+  decode o = Some v -> (idfree v = true -> o = canon_obj v) -> noccur_all pend o = true ->
+  inv (record cs pidx v) pend st.
+Proof.
+  intros cs pend st pidx v o Hinv Hown Hd Hc Hn. destruct pidx as [idx|]; [|exact Hinv].
+  destruct Hinv as [Hf [Hk Ha]]. split; [exact Hf|]. split; [exact Hk|].
+  intros j w Hj. cbn [record fst lm_get] in Hj. destruct (Z.eqb j idx) eqn:E.
+  - inversion Hj; subst w. apply Z.eqb_eq in E. subst j. exists o. rewrite (Hown idx eq_refl). auto.
+  - apply Ha. exact Hj.
 Qed.
 
 (** * single opcodes *)
 
-Lemma inv_push : forall cs st o, inv cs st -> ids_below (next st) o = true -> inv cs (push o st).
+Definition put_state (st : state) (idx : Z) (o : obj) : state :=
+  mkState (stack st) (memo st ++ [(idx, o)])%list (next st) (ecache st) (trace st).
+
+Lemma do_put_is : forall cs pend st o s idx,
+  inv cs pend st -> stack st = o :: s -> is_mark o = false -> existsb (Z.eqb idx) (snd cs) = false ->
+  do_put st idx = SNext (put_state st idx o) /\ memo_ext st (put_state st idx o) /\
+  memo_get idx (memo (put_state st idx o)) = Some o.
 Proof.
-  intros cs st o H Ho. unfold push, set_stack. apply inv_stack; [exact H | lia|].
-  cbn. rewrite Ho. destruct H as [[Hs _] _]. exact Hs.
+  intros cs pend st o s idx [[Hs Hmm] [Hk Ha]] Hst Hm Hfr.
+  assert (Hp : pop1 (stack st) = Some (o, s)) by (rewrite Hst; cbn [pop1]; rewrite Hm; reflexivity).
+  rewrite <- Hk in Hfr. split; [|split].
+  - unfold do_put. rewrite Hp, (memo_put_fresh idx o (memo st) Hfr). reflexivity.
+  - intros j x Hj. cbn. apply memo_get_app_old. exact Hj.
+  - cbn. apply memo_get_app_new. exact Hfr.
 Qed.
 
-Lemma inv_emit : forall cs st e, inv cs st -> inv cs (emit e st).
-Proof. intros cs st e H. exact H. Qed.
-
-Lemma inv_keys_len : forall cs st, inv cs st -> List.length (memo st) = List.length (snd cs).
-Proof. intros cs st [_ [Hk _]]. rewrite <- Hk, map_length. reflexivity. Qed.
-
-(* the machine's PUT with a fresh index *)
-Lemma do_put_fresh : forall cs st v o s idx,
-  inv cs st -> stack st = o :: s -> is_mark o = false -> (idfree v = true -> o = canon_obj v) ->
-  existsb (Z.eqb idx) (snd cs) = false ->
-  exists st', do_put st idx = SNext st' /\ stack st' = stack st /\ next st' = next st /\
-              inv (if idfree v then (idx, v) :: fst cs else fst cs, (snd cs ++ [idx])%list) st'.
+Lemma inv_put_pending : forall cs pend st o s idx,
+  inv cs pend st -> stack st = o :: s -> existsb (Z.eqb idx) (snd cs) = false ->
+  inv (fst cs, (snd cs ++ [idx])%list) pend (put_state st idx o).
 Proof.
-  intros cs st v o s idx Hinv Hst Hm Hcan Hfr. destruct Hinv as [[Hs Hmm] [Hk Ha]].
-  assert (Hp : pop1 (stack st) = Some (o, s)) by (rewrite Hst; cbn [pop1]; rewrite Hm; reflexivity).
-  unfold do_put. rewrite Hp.
-  rewrite <- Hk in Hfr. rewrite (memo_put_fresh idx o (memo st) Hfr).
-  eexists. split; [reflexivity|]. split; [reflexivity|]. split; [reflexivity|].
+  intros cs pend st o s idx [[Hs Hmm] [Hk Ha]] Hst Hfr.
   assert (Ho : ids_below (next st) o = true).
   { rewrite Hst in Hs. cbn in Hs. apply andb_true_iff in Hs. apply Hs. }
   split; [|split]; cbn.
-  - split; cbn; [exact Hs|]. rewrite forallb_app. rewrite Hmm. cbn. rewrite Ho. reflexivity.
+  - split; cbn; [exact Hs|]. rewrite forallb_app, Hmm. cbn. rewrite Ho. reflexivity.
   - rewrite map_app, Hk. reflexivity.
-  - intros j w Hj. destruct (idfree v) eqn:Ef.
-    + cbn [fst lm_get] in Hj. destruct (Z.eqb j idx) eqn:Ej.
-      * inversion Hj; subst w. apply Z.eqb_eq in Ej. subst j. split; [exact Ef|].
-        rewrite (memo_get_app_new idx o (memo st) Hfr). rewrite (Hcan eq_refl). reflexivity.
-      * destruct (Ha j w Hj) as [Hf Hg]. split; [exact Hf|]. apply memo_get_app_old. exact Hg.
-    + cbn [fst] in Hj. destruct (Ha j w Hj) as [Hf Hg]. split; [exact Hf|]. apply memo_get_app_old. exact Hg.
+  - intros j w Hj. destruct (Ha j w Hj) as [x [Hg Hr]]. exists x. split; [apply memo_get_app_old; exact Hg | exact Hr].
 Qed.
 
-Lemma put_sound : forall w cs v prog cs' rest st o s,
-  chk_put cs v prog = Some (cs', rest) -> inv cs st -> stack st = o :: s ->
-  is_mark o = false -> (idfree v = true -> o = canon_obj v) ->
-  exists st', run w st prog = run w st' rest /\ stack st' = stack st /\ next st' = next st /\ inv cs' st'.
+Lemma inv_put_recorded : forall cs pend st o s idx v,
+  inv cs pend st -> stack st = o :: s -> existsb (Z.eqb idx) (snd cs) = false ->
+  decode o = Some v -> (idfree v = true -> o = canon_obj v) -> noccur_all pend o = true ->
+  inv ((idx, v) :: fst cs, (snd cs ++ [idx])%list) pend (put_state st idx o).
 Proof.
-  intros w cs v prog cs' rest st o s H Hinv Hst Hm Hcan. unfold chk_put in H.
-  destruct prog as [|p r]; [inversion H; subst; exists st; auto|].
-  destruct (put_index (snd cs) p) as [idx|] eqn:Ep; [|inversion H; subst; exists st; auto].
+  intros cs pend st o s idx v Hinv Hst Hfr Hd Hc Hn.
+  pose proof (inv_put_pending cs pend st o s idx Hinv Hst Hfr) as [Hf [Hk Ha]].
+  split; [exact Hf|]. split; [exact Hk|].
+  intros j w Hj. cbn [fst lm_get] in Hj. destruct (Z.eqb j idx) eqn:E.
+  - inversion Hj; subst w. apply Z.eqb_eq in E. subst j. exists o. split; [|auto].
+    destruct Hinv as [_ [Hk0 _]]. rewrite <- Hk0 in Hfr. cbn. apply memo_get_app_new. exact Hfr.
+  - apply Ha. exact Hj.
+Qed.
+
+Lemma put_op_step : forall w cs pend st p idx,
+  inv cs pend st -> put_index (snd cs) p = Some idx -> step w st p = do_put st idx.
+Proof.
+  intros w cs pend st p idx Hinv Ep. destruct p; cbn in Ep; try discriminate; cbn [step].
+  - inversion Ep; subst idx. rewrite (inv_keys_len cs pend st Hinv). reflexivity.
+  - destruct (Z.ltb i 0); [discriminate|]. inversion Ep; subst. reflexivity.
+  - inversion Ep; subst. reflexivity.
+  - inversion Ep; subst. reflexivity.
+Qed.
+
+Lemma put_sound : forall w cs pend v prog cs' rest st o s,
+  chk_put cs v prog = Some (cs', rest) -> inv cs pend st -> stack st = o :: s ->
+  is_mark o = false -> decode o = Some v -> (idfree v = true -> o = canon_obj v) -> noccur_all pend o = true ->
+  exists st', run w st prog = run w st' rest /\ stack st' = stack st /\ next st' = next st /\ inv cs' pend st' /\
+              memo_ext st st'.
+Proof.
+  intros w cs pend v prog cs' rest st o s H Hinv Hst Hm Hd Hc Hn. unfold chk_put in H.
+  assert (Hsame : exists st', run w st prog = run w st' prog /\ stack st' = stack st /\ next st' = next st /\ inv cs pend st' /\ memo_ext st st').
+  { exists st. split; [reflexivity|]. split; [reflexivity|]. split; [reflexivity|]. split; [exact Hinv | apply memo_ext_refl]. }
+  destruct prog as [|p r]; [inversion H; subst; exact Hsame|].
+  destruct (put_index (snd cs) p) as [idx|] eqn:Ep; [|inversion H; subst; exact Hsame]. clear Hsame.
   destruct (existsb (Z.eqb idx) (snd cs)) eqn:Ef; [discriminate|]. inversion H; subst cs' rest. clear H.
-  destruct (do_put_fresh cs st v o s idx Hinv Hst Hm Hcan Ef) as [st' [Hd [Hs' [Hn' Hi']]]].
-  exists st'. split; [|auto]. apply run_step_next.
-  destruct p; cbn in Ep; try discriminate; cbn [step].
-  - inversion Ep; subst idx. rewrite (inv_keys_len cs st Hinv). exact Hd.
-  - destruct (Z.ltb i 0); [discriminate|]. inversion Ep; subst. exact Hd.
-  - inversion Ep; subst. exact Hd.
-  - inversion Ep; subst. exact Hd.
+  destruct (do_put_is cs pend st o s idx Hinv Hst Hm Ef) as [Hd' [He' _]].
+  exists (put_state st idx o). split; [apply run_step_next; rewrite (put_op_step w cs pend st p idx Hinv Ep); exact Hd'|].
+  split; [reflexivity|]. split; [reflexivity|]. split; [|exact He'].
+  apply (inv_put_recorded cs pend st o s idx v); assumption.
 Qed.
 
-Lemma get_sound : forall w cs v i st p,
-  get_index p = Some i -> chk_get cs v i = true -> inv cs st ->
-  step w st p = SNext (push (canon_obj v) st) /\ idfree v = true.
+Lemma put_pending_sound : forall w cs pend prog cs' rest pidx st o s,
+  chk_put_pending cs prog = Some (cs', rest, pidx) -> inv cs pend st -> stack st = o :: s -> is_mark o = false ->
+  exists st', run w st prog = run w st' rest /\ stack st' = stack st /\ next st' = next st /\ inv cs' pend st' /\
+              memo_ext st st' /\ (forall idx, pidx = Some idx -> memo_get idx (memo st') = Some o).
 Proof.
-  intros w cs v i st p Hg Hc Hinv. unfold chk_get in Hc.
+  intros w cs pend prog cs' rest pidx st o s H Hinv Hst Hm. unfold chk_put_pending in H.
+  assert (Hsame : exists st', run w st prog = run w st' prog /\ stack st' = stack st /\ next st' = next st /\ inv cs pend st' /\
+                    memo_ext st st' /\ (forall idx, @None Z = Some idx -> memo_get idx (memo st') = Some o)).
+  { exists st. split; [reflexivity|]. split; [reflexivity|]. split; [reflexivity|]. split; [exact Hinv|].
+    split; [apply memo_ext_refl | intros; discriminate]. }
+  destruct prog as [|p r]; [inversion H; subst; exact Hsame|].
+  destruct (put_index (snd cs) p) as [idx|] eqn:Ep; [|inversion H; subst; exact Hsame]. clear Hsame.
+  destruct (existsb (Z.eqb idx) (snd cs)) eqn:Ef; [discriminate|]. inversion H; subst cs' rest pidx. clear H.
+  destruct (do_put_is cs pend st o s idx Hinv Hst Hm Ef) as [Hd' [He' Hg']].
+  exists (put_state st idx o). split; [apply run_step_next; rewrite (put_op_step w cs pend st p idx Hinv Ep); exact Hd'|].
+  split; [reflexivity|]. split; [reflexivity|]. split; [apply (inv_put_pending cs pend st o s idx); assumption|].
+  split; [exact He'|]. intros j Hj. inversion Hj; subst j. exact Hg'.
+Qed.
+
+(* a fetch pushes the known object *)
+Lemma get_sound : forall w cs pend v i st p,
+  get_index p = Some i -> chk_get cs v i = true -> inv cs pend st ->
+  exists o, step w st p = SNext (push o st) /\ decode o = Some v /\ (idfree v = true -> o = canon_obj v) /\
+            noccur_all pend o = true /\ ids_below (next st) o = true.
+Proof.
+  intros w cs pend v i st p Hg Hc Hinv. unfold chk_get in Hc.
   destruct (lm_get i (fst cs)) as [v'|] eqn:El; [|discriminate]. apply pv_eqb_eq in Hc. subst v'.
-  destruct Hinv as [_ [_ Ha]]. destruct (Ha i v El) as [Hf Hm]. split; [|exact Hf].
-  destruct p; cbn in Hg; try discriminate; inversion Hg; subst; cbn [step]; unfold do_get; rewrite Hm; reflexivity.
+  destruct Hinv as [[_ Hmm] [_ Ha]]. destruct (Ha i v El) as [o [Hm [Hd [Hcn Hn]]]]. exists o.
+  split; [|split; [exact Hd | split; [exact Hcn | split; [exact Hn|]]]].
+  - destruct p; cbn in Hg; try discriminate; inversion Hg; subst; cbn [step]; unfold do_get; rewrite Hm; reflexivity.
+  - clear - Hmm Hm. induction (memo st) as [|[k x] r IH]; cbn in *; [discriminate|].
+    apply andb_true_iff in Hmm. destruct Hmm as [H1 H2]. destruct (Z.eqb i k); [inversion Hm; subst; exact H1 | apply IH; assumption].
 Qed.
 
 Lemma atom_of_push_step : forall w st p a, atom_of_push p = Some a -> step w st p = SNext (push (obj_of_atom a) st).
@@ -271,45 +457,48 @@ Proof.
   - destruct f; [inversion H; subst; reflexivity | discriminate].
 Qed.
 
-Lemma canon_below : forall n v, idfree v = true -> ids_below n (canon_obj v) = true.
-Proof. intros n v H. apply noids_below. apply canon_noids. exact H. Qed.
+Lemma noccur_atom : forall pend a, noccur_all pend (obj_of_atom a) = true.
+Proof. intros. apply noccur_all_noids. apply noids_atom. Qed.
 
-Lemma atom_sound : forall w a cs prog cs' rest st,
-  chk_atom a cs prog = Some (cs', rest) -> inv cs st ->
+Lemma atom_sound : forall w a cs pend prog cs' rest st,
+  chk_atom a cs prog = Some (cs', rest) -> inv cs pend st ->
   exists st', run w st prog = run w st' rest /\ stack st' = obj_of_atom a :: stack st /\
-              next st' = next st /\ inv cs' st'.
+              next st' = next st /\ inv cs' pend st' /\ memo_ext st st'.
 Proof.
-  intros w a cs prog cs' rest st H Hinv. unfold chk_atom in H. destruct prog as [|p r]; [discriminate|].
+  intros w a cs pend prog cs' rest st H Hinv. unfold chk_atom in H. destruct prog as [|p r]; [discriminate|].
   destruct (get_index p) as [i|] eqn:Eg.
   - destruct (chk_get cs (PAtom a) i) eqn:Ec; [|discriminate]. inversion H; subst cs' rest.
-    destruct (get_sound w cs (PAtom a) i st p Eg Ec Hinv) as [Hs _]. cbn [canon_obj] in Hs.
+    destruct (get_sound w cs pend (PAtom a) i st p Eg Ec Hinv) as [o [Hs [_ [Hc _]]]].
+    rewrite (Hc eq_refl) in Hs. cbn [canon_obj] in Hs.
     exists (push (obj_of_atom a) st). split; [apply run_step_next; exact Hs|].
-    split; [reflexivity | split; [reflexivity|]]. apply inv_push; [exact Hinv | apply ids_below_atom].
+    split; [reflexivity | split; [reflexivity|]]. split; [apply inv_push; [exact Hinv | apply ids_below_atom] | apply memo_ext_same; reflexivity].
   - destruct (atom_of_push p) as [a'|] eqn:Ea; [|discriminate].
     destruct (atom_eqb a' a) eqn:Ee; [|discriminate]. apply atom_eqb_eq in Ee. subst a'.
-    assert (Hinv1 : inv cs (push (obj_of_atom a) st)) by (apply inv_push; [exact Hinv | apply ids_below_atom]).
-    destruct (put_sound w cs (PAtom a) r cs' rest (push (obj_of_atom a) st) (obj_of_atom a) (stack st) H Hinv1
-                        eq_refl (is_mark_atom a) (fun _ => eq_refl)) as [st' [Hr [Hs [Hn Hi]]]].
-    exists st'. split; [|split; [exact Hs | split; [exact Hn | exact Hi]]].
+    assert (Hinv1 : inv cs pend (push (obj_of_atom a) st)) by (apply inv_push; [exact Hinv | apply ids_below_atom]).
+    destruct (put_sound w cs pend (PAtom a) r cs' rest (push (obj_of_atom a) st) (obj_of_atom a) (stack st) H Hinv1
+                        eq_refl (is_mark_atom a) (decode_obj_of_atom a) (fun _ => eq_refl) (noccur_atom pend a))
+      as [st' [Hr [Hs [Hn [Hi He]]]]].
+    exists st'. split; [|split; [exact Hs | split; [exact Hn | split; [exact Hi | exact He]]]].
     rewrite (run_step_next w st p _ r (atom_of_push_step w st p a Ea)). exact Hr.
 Qed.
 
-Lemma atoms_sound : forall w xs cs prog cs' rest st,
-  chk_atoms xs cs prog = Some (cs', rest) -> inv cs st ->
+Lemma atoms_sound : forall w xs cs pend prog cs' rest st,
+  chk_atoms xs cs prog = Some (cs', rest) -> inv cs pend st ->
   exists st', run w st prog = run w st' rest /\ stack st' = (rev (map obj_of_atom xs) ++ stack st)%list /\
-              next st' = next st /\ inv cs' st'.
+              next st' = next st /\ inv cs' pend st' /\ memo_ext st st'.
 Proof.
-  intros w. induction xs as [|a r IH]; intros cs prog cs' rest st H Hinv; cbn [chk_atoms] in H.
-  - inversion H; subst. exists st. auto.
+  intros w. induction xs as [|a r IH]; intros cs pend prog cs' rest st H Hinv; cbn [chk_atoms] in H.
+  - inversion H; subst. exists st. split; [reflexivity|]. split; [reflexivity|]. split; [reflexivity|].
+    split; [exact Hinv | apply memo_ext_refl].
   - destruct (chk_atom a cs prog) as [[cs1 p1]|] eqn:Ea; [|discriminate].
-    destruct (atom_sound w a cs prog cs1 p1 st Ea Hinv) as [st1 [Hr1 [Hs1 [Hn1 Hi1]]]].
-    destruct (IH cs1 p1 cs' rest st1 H Hi1) as [st2 [Hr2 [Hs2 [Hn2 Hi2]]]].
-    exists st2. split; [rewrite Hr1; exact Hr2|]. split; [|split; [lia | exact Hi2]].
+    destruct (atom_sound w a cs pend prog cs1 p1 st Ea Hinv) as [st1 [Hr1 [Hs1 [Hn1 [Hi1 He1]]]]].
+    destruct (IH cs1 pend p1 cs' rest st1 H Hi1) as [st2 [Hr2 [Hs2 [Hn2 [Hi2 He2]]]]].
+    exists st2. split; [rewrite Hr1; exact Hr2|]. split; [|split; [lia | split; [exact Hi2 | exact (memo_ext_trans _ _ _ He1 He2)]]].
     rewrite Hs2, Hs1. cbn [map rev]. rewrite <- app_assoc. reflexivity.
 Qed.
 
 (* a class object *)
-Lemma type_default_sound : forall w m n cs prog cs' rest st,
+Lemma type_default_sound : forall w m n cs pend prog cs' rest st,
   match chk_atom (AStr m) cs prog with
   | Some (cs1, p1) =>
       match chk_atom (AStr n) cs1 p1 with
@@ -318,43 +507,45 @@ Lemma type_default_sound : forall w m n cs prog cs' rest st,
       end
   | None => None
   end = Some (cs', rest) ->
-  inv cs st -> find_class w m n = FCResolved GType ->
+  inv cs pend st -> find_class w m n = FCResolved GType ->
   exists st', run w st prog = run w st' rest /\ stack st' = OGlobal m n GType :: stack st /\
-              next st' = next st /\ inv cs' st'.
+              next st' = next st /\ inv cs' pend st' /\ memo_ext st st'.
 Proof.
-  intros w m n cs prog cs' rest st H Hinv Hfc.
+  intros w m n cs pend prog cs' rest st H Hinv Hfc.
   destruct (chk_atom (AStr m) cs prog) as [[cs1 p1]|] eqn:E1; [|discriminate].
   destruct (chk_atom (AStr n) cs1 p1) as [[cs2 p2]|] eqn:E2; [|discriminate].
   destruct p2 as [|q p2]; [discriminate|]. destruct q; try discriminate.
-  destruct (atom_sound w _ _ _ _ _ st E1 Hinv) as [st1 [Hr1 [Hs1 [Hn1 Hi1]]]].
-  destruct (atom_sound w _ _ _ _ _ st1 E2 Hi1) as [st2 [Hr2 [Hs2 [Hn2 Hi2]]]].
+  destruct (atom_sound w _ _ pend _ _ _ st E1 Hinv) as [st1 [Hr1 [Hs1 [Hn1 [Hi1 He1]]]]].
+  destruct (atom_sound w _ _ pend _ _ _ st1 E2 Hi1) as [st2 [Hr2 [Hs2 [Hn2 [Hi2 He2]]]]].
   cbn [obj_of_atom] in Hs1, Hs2.
   set (st3 := mkState (OGlobal m n GType :: stack st) (memo st2) (next st2) (ecache st2) (EResolve m n :: trace st2)).
   assert (H3 : step w st2 STACK_GLOBAL = SNext st3).
   { cbn [step]. rewrite Hs2, Hs1. cbn [pop1 is_mark]. unfold do_global. rewrite Hfc. reflexivity. }
-  assert (Hi3 : inv cs2 st3).
-  { unfold st3. apply (inv_trace _ _ _ _ _ (trace st2)). apply inv_stack; [exact Hi2 | lia|].
+  assert (Hi3 : inv cs2 pend st3).
+  { unfold st3. apply (inv_trace _ _ _ _ _ _ (trace st2)). apply inv_stack; [exact Hi2 | lia|].
     cbn. destruct Hi2 as [[Hs _] _]. rewrite Hs2, Hs1 in Hs. cbn in Hs. exact Hs. }
-  destruct (put_sound w cs2 (PType m n) p2 cs' rest st3 (OGlobal m n GType) (stack st) H Hi3 eq_refl eq_refl
-                      (fun _ => eq_refl)) as [st4 [Hr4 [Hs4 [Hn4 Hi4]]]].
-  exists st4. split; [|split; [exact Hs4 | split; [cbn in Hn4; lia | exact Hi4]]].
-  rewrite Hr1, Hr2, (run_step_next w st2 STACK_GLOBAL st3 p2 H3). exact Hr4.
+  destruct (put_sound w cs2 pend (PType m n) p2 cs' rest st3 (OGlobal m n GType) (stack st) H Hi3 eq_refl eq_refl eq_refl
+                      (fun _ => eq_refl) (noccur_all_noids pend (OGlobal m n GType) eq_refl)) as [st4 [Hr4 [Hs4 [Hn4 [Hi4 He4]]]]].
+  exists st4. split; [|split; [exact Hs4 | split; [cbn in Hn4; lia | split; [exact Hi4|]]]].
+  - rewrite Hr1, Hr2, (run_step_next w st2 STACK_GLOBAL st3 p2 H3). exact Hr4.
+  - apply (memo_ext_trans _ _ _ He1). apply (memo_ext_trans _ _ _ He2). exact He4.
 Qed.
 
-Lemma type_sound : forall w m n cs prog cs' rest st,
-  chk_type m n cs prog = Some (cs', rest) -> inv cs st -> find_class w m n = FCResolved GType ->
+Lemma type_sound : forall w m n cs pend prog cs' rest st,
+  chk_type m n cs prog = Some (cs', rest) -> inv cs pend st -> find_class w m n = FCResolved GType ->
   exists st', run w st prog = run w st' rest /\ stack st' = OGlobal m n GType :: stack st /\
-              next st' = next st /\ inv cs' st'.
+              next st' = next st /\ inv cs' pend st' /\ memo_ext st st'.
 Proof.
-  intros w m n cs prog cs' rest st H Hinv Hfc. unfold chk_type in H. destruct prog as [|p r]; [discriminate|].
+  intros w m n cs pend prog cs' rest st H Hinv Hfc. unfold chk_type in H. destruct prog as [|p r]; [discriminate|].
   destruct (match get_index p with Some i => chk_get cs (PType m n) i | None => false end) eqn:Eg.
   - inversion H; subst cs' rest. destruct (get_index p) as [i|] eqn:Ei; [|discriminate].
-    destruct (get_sound w cs (PType m n) i st p Ei Eg Hinv) as [Hs _]. cbn [canon_obj] in Hs.
+    destruct (get_sound w cs pend (PType m n) i st p Ei Eg Hinv) as [o [Hs [_ [Hc _]]]].
+    rewrite (Hc eq_refl) in Hs. cbn [canon_obj] in Hs.
     exists (push (OGlobal m n GType) st). split; [apply run_step_next; exact Hs|].
-    split; [reflexivity | split; [reflexivity|]]. apply inv_push; [exact Hinv | reflexivity].
+    split; [reflexivity | split; [reflexivity|]]. split; [apply inv_push; [exact Hinv | reflexivity] | apply memo_ext_same; reflexivity].
   - destruct p;
       try (match type of H with
-           | match chk_atom _ _ ?pp with _ => _ end = _ => exact (type_default_sound w m n cs pp cs' rest st H Hinv Hfc)
+           | match chk_atom _ _ ?pp with _ => _ end = _ => exact (type_default_sound w m n cs pend pp cs' rest st H Hinv Hfc)
            end).
     (* GLOBAL *)
     match type of H with (if (pystr_eqb ?a m && pystr_eqb ?b n && _ && _)%bool then _ else _) = _ =>
@@ -366,12 +557,12 @@ Proof.
     set (st1 := mkState (OGlobal m n GType :: stack st) (memo st) (next st) (ecache st) (EResolve m n :: trace st)).
     assert (H1 : step w st (GLOBAL m n) = SNext st1).
     { cbn [step]. rewrite Em, En. cbn [orb]. unfold do_global. rewrite Hfc. reflexivity. }
-    assert (Hi1 : inv cs st1).
-    { unfold st1. apply (inv_trace _ _ _ _ _ (trace st)). apply inv_stack; [exact Hinv | lia|].
+    assert (Hi1 : inv cs pend st1).
+    { unfold st1. apply (inv_trace _ _ _ _ _ _ (trace st)). apply inv_stack; [exact Hinv | lia|].
       cbn. destruct Hinv as [[Hs _] _]. exact Hs. }
-    destruct (put_sound w cs (PType m n) r cs' rest st1 (OGlobal m n GType) (stack st) H Hi1 eq_refl eq_refl
-                        (fun _ => eq_refl)) as [st2 [Hr2 [Hs2 [Hn2 Hi2]]]].
-    exists st2. split; [|split; [exact Hs2 | split; [exact Hn2 | exact Hi2]]].
+    destruct (put_sound w cs pend (PType m n) r cs' rest st1 (OGlobal m n GType) (stack st) H Hi1 eq_refl eq_refl eq_refl
+                        (fun _ => eq_refl) (noccur_all_noids pend (OGlobal m n GType) eq_refl)) as [st2 [Hr2 [Hs2 [Hn2 [Hi2 He2]]]]].
+    exists st2. split; [|split; [exact Hs2 | split; [exact Hn2 | split; [exact Hi2 | exact He2]]]].
     rewrite (run_step_next w st _ st1 r H1). exact Hr2.
 Qed.
 
@@ -385,6 +576,19 @@ Proof.
   rewrite Ht, (stack_subst_fresh _ _ _ Hb). reflexivity.
 Qed.
 
+(* what filling target [i] does to the memo: its own entry follows, entries older than [i] stay *)
+Lemma mutate_memo_own : forall i c st s idx t,
+  memo_get idx (memo st) = Some t -> subst i c t = c ->
+  memo_get idx (memo (mutate i c (set_stack st s))) = Some c.
+Proof. intros i c st s idx t H Ht. cbn [mutate set_stack memo]. rewrite memo_get_map_subst, H. cbn. rewrite Ht. reflexivity. Qed.
+Lemma mutate_memo_old : forall i c st s idx o,
+  memo_get idx (memo st) = Some o -> ids_below i o = true ->
+  memo_get idx (memo (mutate i c (set_stack st s))) = Some o.
+Proof.
+  intros i c st s idx o H Hb. cbn [mutate set_stack memo]. rewrite memo_get_map_subst, H. cbn.
+  rewrite (subst_fresh i c o Hb). reflexivity.
+Qed.
+
 Lemma nodup_atoms_prefix : forall l1 l2, nodup_atoms (l1 ++ l2) = true -> nodup_atoms l1 = true.
 Proof.
   induction l1 as [|a r IH]; intros l2 H; cbn in *; [reflexivity|].
@@ -393,201 +597,247 @@ Proof.
   apply orb_false_iff in H1. apply H1.
 Qed.
 
-Lemma inv_set_stack_sub : forall cs st s, inv cs st ->
-  forallb (ids_below (next st)) s = true -> inv cs (set_stack st s).
-Proof. intros cs st s H Hs. unfold set_stack. apply inv_stack; [exact H | lia | exact Hs]. Qed.
-
-Lemma fresh_stack_tail : forall st a s, fresh_state st -> stack st = a :: s ->
-  ids_below (next st) a = true /\ forallb (ids_below (next st)) s = true.
-Proof. intros st a s [Hs _] E. rewrite E in Hs. cbn in Hs. apply andb_true_iff in Hs. exact Hs. Qed.
-
 Lemma forallb_app_split : forall (A : Type) (f : A -> bool) l1 l2,
   forallb f (l1 ++ l2) = true -> forallb f l1 = true /\ forallb f l2 = true.
 Proof. intros. rewrite forallb_app in H. apply andb_true_iff in H. exact H. Qed.
 
+(* the bookkeeping every member loop carries for its target [i] (reserved memo index [pidx]) *)
+Definition own_entry (pidx : option Z) (st : state) (t : obj) : Prop :=
+  forall idx, pidx = Some idx -> memo_get idx (memo st) = Some t.
+Definition old_kept (i : nat) (st st' : state) : Prop :=
+  forall idx o, memo_get idx (memo st) = Some o -> ids_below i o = true -> memo_get idx (memo st') = Some o.
+Lemma old_kept_refl : forall i st, old_kept i st st.
+Proof. intros i st idx o H _. exact H. Qed.
+Lemma old_kept_trans : forall i a b c, old_kept i a b -> old_kept i b c -> old_kept i a c.
+Proof. intros i a b c H1 H2 idx o H Hb. apply H2; [apply H1; assumption | exact Hb]. Qed.
+Lemma old_kept_ext : forall i a b, memo_ext a b -> old_kept i a b.
+Proof. intros i a b H idx o Hg _. apply H. exact Hg. Qed.
+Lemma own_entry_ext : forall pidx a b t, own_entry pidx a t -> memo_ext a b -> own_entry pidx b t.
+Proof. intros pidx a b t H He idx E. apply He. apply H. exact E. Qed.
+
 (* ADDITEMS on a set that already has members *)
-Lemma additems_step : forall w cs st i prevA itemsA below,
-  inv cs st -> itemsA <> [] -> nodup_atoms (prevA ++ itemsA) = true ->
+Lemma additems_step : forall w cs pend st i prevA itemsA below pidx,
+  inv cs pend st -> In i pend -> itemsA <> [] -> nodup_atoms (prevA ++ itemsA) = true ->
   stack st = (rev (map obj_of_atom itemsA) ++ OMark :: OSet i (map obj_of_atom prevA) :: below)%list ->
   forallb (ids_below i) below = true -> i < next st ->
+  own_entry pidx st (OSet i (map obj_of_atom prevA)) ->
   exists st', step w st ADDITEMS = SNext st' /\
               stack st' = OSet i (map obj_of_atom (prevA ++ itemsA)) :: below /\
-              next st' = next st /\ inv cs st'.
+              next st' = next st /\ inv cs pend st' /\
+              own_entry pidx st' (OSet i (map obj_of_atom (prevA ++ itemsA))) /\ old_kept i st st'.
 Proof.
-  intros w cs st i prevA itemsA below Hinv Hne Hnd Hs Hb Hlt.
+  intros w cs pend st i prevA itemsA below pidx Hinv Hin Hne Hnd Hs Hb Hlt Hown.
   set (c := OSet i (map obj_of_atom (prevA ++ itemsA))).
   exists (mutate i c (set_stack st (OSet i (map obj_of_atom prevA) :: below))).
-  split; [|split; [|split]].
+  assert (Hsub : subst i c (OSet i (map obj_of_atom prevA)) = c) by (cbn [subst]; rewrite Nat.eqb_refl; reflexivity).
+  split; [|split; [|split; [|split; [|split]]]].
   - cbn [step]. unfold with_mark. rewrite Hs, (to_mark_rev _ _ (no_mark_atoms itemsA)).
     unfold do_additems. cbn [pop1 is_mark].
     destruct (map obj_of_atom itemsA) as [|x r] eqn:E; [destruct itemsA; [contradiction | discriminate]|].
     rewrite <- E, (set_add_all_atoms itemsA prevA Hnd). reflexivity.
-  - apply (mutate_stack i c _ (OSet i (map obj_of_atom prevA)) below); [reflexivity | | exact Hb].
-    cbn [subst]. rewrite Nat.eqb_refl. reflexivity.
+  - apply (mutate_stack i c _ (OSet i (map obj_of_atom prevA)) below); [reflexivity | exact Hsub | exact Hb].
   - reflexivity.
-  - apply inv_mutate.
+  - apply inv_mutate; [|exact Hin|].
     + apply inv_set_stack_sub; [exact Hinv|]. destruct Hinv as [[Hst _] _]. rewrite Hs in Hst.
       apply forallb_app_split in Hst. destruct Hst as [_ Hst]. cbn in Hst. exact Hst.
     + cbn [ids_below c]. rewrite ids_below_atoms, andb_true_r. apply Nat.ltb_lt. exact Hlt.
+  - intros idx E. apply (mutate_memo_own i c st _ idx _ (Hown idx E) Hsub).
+  - intros idx o Hg Ho. apply mutate_memo_old; assumption.
 Qed.
 
-Lemma set_items_sound : forall w xs inm cs prog cs' rest st i prevA batchA below,
-  chk_set_items xs inm cs prog = Some (cs', rest) -> inv cs st ->
+Lemma set_items_sound : forall w xs inm cs pend prog cs' rest st i prevA batchA below pidx,
+  chk_set_items xs inm cs prog = Some (cs', rest) -> inv cs pend st -> In i pend ->
   stack st = ((if inm then rev (map obj_of_atom batchA) ++ [OMark] else []) ++ OSet i (map obj_of_atom prevA) :: below)%list ->
   (inm = false -> batchA = []) ->
   nodup_atoms (prevA ++ batchA ++ xs) = true ->
   forallb (ids_below i) below = true -> i < next st ->
+  own_entry pidx st (OSet i (map obj_of_atom prevA)) ->
   exists st', run w st prog = run w st' rest /\
               stack st' = OSet i (map obj_of_atom (prevA ++ batchA ++ xs)) :: below /\
-              next st' = next st /\ inv cs' st'.
+              next st' = next st /\ inv cs' pend st' /\
+              own_entry pidx st' (OSet i (map obj_of_atom (prevA ++ batchA ++ xs))) /\ old_kept i st st'.
 Proof.
-  intros w. induction xs as [|a r IH]; intros inm cs prog cs' rest st i prevA batchA below H Hinv Hs Hbat Hnd Hb Hlt;
+  intros w. induction xs as [|a r IH];
+    intros inm cs pend prog cs' rest st i prevA batchA below pidx H Hinv Hin Hs Hbat Hnd Hb Hlt Hown;
     cbn [chk_set_items] in H.
   - destruct inm; [discriminate|]. inversion H; subst cs' rest. rewrite (Hbat eq_refl) in *. cbn [app] in *.
-    exists st. rewrite !app_nil_r. auto.
-  - (* enter the batch if necessary *)
-    assert (Henter : exists st0 p0, run w st prog = run w st0 p0 /\
+    exists st. rewrite !app_nil_r. split; [reflexivity|]. split; [exact Hs|]. split; [reflexivity|].
+    split; [exact Hinv|]. split; [exact Hown | apply old_kept_refl].
+  - assert (Henter : exists st0 p0, run w st prog = run w st0 p0 /\
               (if inm then Some prog else match prog with MARK :: p => Some p | _ => None end) = Some p0 /\
               stack st0 = (rev (map obj_of_atom batchA) ++ OMark :: OSet i (map obj_of_atom prevA) :: below)%list /\
-              next st0 = next st /\ inv cs st0).
+              next st0 = next st /\ inv cs pend st0 /\ memo_ext st st0).
     { destruct inm.
-      - exists st, prog. rewrite Hs, <- app_assoc. auto.
+      - exists st, prog. rewrite Hs, <- app_assoc. split; [reflexivity|]. split; [reflexivity|]. split; [reflexivity|].
+        split; [reflexivity|]. split; [exact Hinv | apply memo_ext_refl].
       - rewrite (Hbat eq_refl) in *. destruct prog as [|q p]; [discriminate|]. destruct q; try discriminate.
         exists (push OMark st), p. split; [apply run_step_next; reflexivity|]. split; [reflexivity|].
-        split; [cbn; rewrite Hs; reflexivity|]. split; [reflexivity|]. apply inv_push; [exact Hinv | reflexivity]. }
-    destruct Henter as [st0 [p0 [Hr0 [Hp0 [Hs0 [Hn0 Hi0]]]]]]. rewrite Hp0 in H. clear Hp0.
+        split; [cbn; rewrite Hs; reflexivity|]. split; [reflexivity|].
+        split; [apply inv_push; [exact Hinv | reflexivity] | apply memo_ext_same; reflexivity]. }
+    destruct Henter as [st0 [p0 [Hr0 [Hp0 [Hs0 [Hn0 [Hi0 He0]]]]]]]. rewrite Hp0 in H. clear Hp0.
     destruct (chk_atom a cs p0) as [[cs1 p1]|] eqn:Ea; [|discriminate].
-    destruct (atom_sound w a cs p0 cs1 p1 st0 Ea Hi0) as [st1 [Hr1 [Hs1 [Hn1 Hi1]]]].
+    destruct (atom_sound w a cs pend p0 cs1 p1 st0 Ea Hi0) as [st1 [Hr1 [Hs1 [Hn1 [Hi1 He1]]]]].
+    assert (He01 : memo_ext st st1) by exact (memo_ext_trans _ _ _ He0 He1).
     assert (Hs1' : stack st1 = (rev (map obj_of_atom (batchA ++ [a])) ++ OMark :: OSet i (map obj_of_atom prevA) :: below)%list).
     { rewrite Hs1, Hs0, map_app, rev_app_distr. reflexivity. }
-    (* the default continuation: the batch stays open *)
     assert (Hopen : chk_set_items r true cs1 p1 = Some (cs', rest) ->
               exists st', run w st prog = run w st' rest /\
                 stack st' = OSet i (map obj_of_atom (prevA ++ batchA ++ a :: r)) :: below /\
-                next st' = next st /\ inv cs' st').
-    { intro H'. destruct (IH true cs1 p1 cs' rest st1 i prevA (batchA ++ [a]) below H' Hi1) as [st' [Hr' [Hs' [Hn' Hi']]]].
+                next st' = next st /\ inv cs' pend st' /\
+                own_entry pidx st' (OSet i (map obj_of_atom (prevA ++ batchA ++ a :: r))) /\ old_kept i st st').
+    { intro H'. destruct (IH true cs1 pend p1 cs' rest st1 i prevA (batchA ++ [a]) below pidx H' Hi1 Hin)
+        as [st' [Hr' [Hs' [Hn' [Hi' [Ho' Hk']]]]]].
       - rewrite Hs1', <- app_assoc. reflexivity.
       - discriminate.
       - rewrite <- app_assoc. exact Hnd.
       - exact Hb.
       - lia.
-      - exists st'. split; [rewrite Hr0, Hr1; exact Hr'|]. rewrite <- app_assoc in Hs'. split; [exact Hs'|]. split; [lia | exact Hi']. }
+      - exact (own_entry_ext _ _ _ _ Hown He01).
+      - exists st'. split; [rewrite Hr0, Hr1; exact Hr'|]. rewrite <- app_assoc in Hs', Ho'.
+        split; [exact Hs'|]. split; [lia|]. split; [exact Hi'|]. split; [exact Ho'|].
+        exact (old_kept_trans _ _ _ _ (old_kept_ext i _ _ He01) Hk'). }
     destruct p1 as [|q p1']; [apply Hopen; exact H|].
     destruct q; try (apply Hopen; exact H).
-    (* ADDITEMS closes the batch *)
     assert (Hnd1 : nodup_atoms (prevA ++ (batchA ++ [a])) = true).
     { apply (nodup_atoms_prefix _ r). rewrite <- !app_assoc. exact Hnd. }
-    destruct (additems_step w cs1 st1 i prevA (batchA ++ [a]) below Hi1) as [st2 [Hst2 [Hs2 [Hn2 Hi2]]]].
+    destruct (additems_step w cs1 pend st1 i prevA (batchA ++ [a]) below pidx Hi1 Hin)
+      as [st2 [Hst2 [Hs2 [Hn2 [Hi2 [Ho2 Hk2]]]]]].
     + destruct batchA; discriminate.
     + exact Hnd1.
     + exact Hs1'.
     + exact Hb.
     + lia.
-    + destruct (IH false cs1 p1' cs' rest st2 i (prevA ++ batchA ++ [a]) [] below H Hi2) as [st' [Hr' [Hs' [Hn' Hi']]]].
+    + exact (own_entry_ext _ _ _ _ Hown He01).
+    + destruct (IH false cs1 pend p1' cs' rest st2 i (prevA ++ batchA ++ [a]) [] below pidx H Hi2 Hin)
+        as [st' [Hr' [Hs' [Hn' [Hi' [Ho' Hk']]]]]].
       * exact Hs2.
       * reflexivity.
       * cbn [app]. rewrite <- !app_assoc. exact Hnd.
       * exact Hb.
       * lia.
+      * exact Ho2.
       * exists st'. split; [rewrite Hr0, Hr1, (run_step_next w st1 ADDITEMS st2 p1' Hst2); exact Hr'|].
-        cbn [app] in Hs'. rewrite <- !app_assoc in Hs'. split; [exact Hs'|]. split; [lia | exact Hi'].
+        cbn [app] in Hs', Ho'. rewrite <- !app_assoc in Hs', Ho'. split; [exact Hs'|]. split; [lia|]. split; [exact Hi'|].
+        split; [exact Ho'|].
+        exact (old_kept_trans _ _ _ _ (old_kept_ext i _ _ He01) (old_kept_trans _ _ _ _ Hk2 Hk')).
 Qed.
 
 (** * the generic member loops *)
 
 Definition member_sound (w : world) (chkf : pv -> cstate -> list op -> option (cstate * list op)) (x : pv) : Prop :=
-  forall cs prog cs' rest, chkf x cs prog = Some (cs', rest) -> forall st, inv cs st ->
+  forall cs prog cs' rest, chkf x cs prog = Some (cs', rest) ->
+  forall pend st, inv cs pend st -> Forall (fun j => j < next st) pend ->
   exists o st', run w st prog = run w st' rest /\ stack st' = o :: stack st /\ decode o = Some x /\
-    is_mark o = false /\ (idfree x = true -> o = canon_obj x) /\ inv cs' st' /\ next st <= next st'.
+    is_mark o = false /\ (idfree x = true -> o = canon_obj x) /\ noccur_all pend o = true /\
+    inv cs' pend st' /\ next st <= next st' /\ memo_ext st st'.
+
+Lemma pend_mono : forall pend n m, n <= m -> Forall (fun j => j < n) pend -> Forall (fun j => j < m) pend.
+Proof. intros pend n m H HF. induction HF; constructor; [lia | assumption]. Qed.
 
 Lemma seq_sound : forall w chkf xs, Forall (member_sound w chkf) xs ->
-  forall cs prog cs' rest st, seq_gen chkf xs cs prog = Some (cs', rest) -> inv cs st ->
+  forall cs prog cs' rest pend st, seq_gen chkf xs cs prog = Some (cs', rest) -> inv cs pend st ->
+  Forall (fun j => j < next st) pend ->
   exists os st', run w st prog = run w st' rest /\ stack st' = (rev os ++ stack st)%list /\
     Forall2 (fun o v => decode o = Some v) os xs /\ existsb is_mark os = false /\
-    (forallb idfree xs = true -> os = map canon_obj xs) /\ inv cs' st' /\ next st <= next st'.
+    (forallb idfree xs = true -> os = map canon_obj xs) /\ forallb (noccur_all pend) os = true /\
+    inv cs' pend st' /\ next st <= next st' /\ memo_ext st st'.
 Proof.
-  intros w chkf xs HF. induction HF as [|x r Hx Hr IH]; intros cs prog cs' rest st H Hinv; cbn [seq_gen] in H.
+  intros w chkf xs HF. induction HF as [|x r Hx Hr IH]; intros cs prog cs' rest pend st H Hinv Hp; cbn [seq_gen] in H.
   - inversion H; subst. exists [], st. cbn.
     split; [reflexivity|]. split; [reflexivity|]. split; [constructor|]. split; [reflexivity|].
-    split; [reflexivity|]. split; [exact Hinv | lia].
+    split; [reflexivity|]. split; [reflexivity|]. split; [exact Hinv|]. split; [lia | apply memo_ext_refl].
   - destruct (chkf x cs prog) as [[cs1 p1]|] eqn:E; [|discriminate].
-    destruct (Hx cs prog cs1 p1 E st Hinv) as [o [st1 [Hr1 [Hs1 [Hd1 [Hm1 [Hc1 [Hi1 Hn1]]]]]]]].
-    destruct (IH cs1 p1 cs' rest st1 H Hi1) as [os [st2 [Hr2 [Hs2 [Hd2 [Hm2 [Hc2 [Hi2 Hn2]]]]]]]].
+    destruct (Hx cs prog cs1 p1 E pend st Hinv Hp) as [o [st1 [Hr1 [Hs1 [Hd1 [Hm1 [Hc1 [Hno1 [Hi1 [Hn1 He1]]]]]]]]]].
+    destruct (IH cs1 p1 cs' rest pend st1 H Hi1 (pend_mono _ _ _ Hn1 Hp))
+      as [os [st2 [Hr2 [Hs2 [Hd2 [Hm2 [Hc2 [Hno2 [Hi2 [Hn2 He2]]]]]]]]]].
     exists (o :: os), st2. split; [rewrite Hr1; exact Hr2|].
     split; [rewrite Hs2, Hs1; cbn [rev]; rewrite <- app_assoc; reflexivity|].
     split; [constructor; assumption|]. split; [cbn; rewrite Hm1; exact Hm2|].
-    split; [|split; [exact Hi2 | lia]].
-    intro Hf. cbn in Hf. apply andb_true_iff in Hf. destruct Hf as [F1 F2]. cbn [map]. rewrite (Hc1 F1), (Hc2 F2). reflexivity.
+    split; [|split; [cbn; rewrite Hno1; exact Hno2|]].
+    + intro Hf. cbn in Hf. apply andb_true_iff in Hf. destruct Hf as [F1 F2]. cbn [map]. rewrite (Hc1 F1), (Hc2 F2). reflexivity.
+    + split; [exact Hi2|]. split; [lia | exact (memo_ext_trans _ _ _ He1 He2)].
 Qed.
 
-Lemma appends_step : forall w cs st i prev items below,
-  inv cs st -> items <> [] -> existsb is_mark items = false ->
+Lemma appends_step : forall w cs pend st i prev items below pidx,
+  inv cs pend st -> In i pend -> items <> [] -> existsb is_mark items = false ->
   stack st = (rev items ++ OMark :: OList i prev :: below)%list ->
-  forallb (ids_below i) below = true -> i < next st ->
+  forallb (ids_below i) below = true -> i < next st -> own_entry pidx st (OList i prev) ->
   exists st', step w st APPENDS = SNext st' /\ stack st' = OList i (prev ++ items) :: below /\
-              next st' = next st /\ inv cs st'.
+              next st' = next st /\ inv cs pend st' /\ own_entry pidx st' (OList i (prev ++ items)) /\ old_kept i st st'.
 Proof.
-  intros w cs st i prev items below Hinv Hne Hm Hs Hb Hlt.
+  intros w cs pend st i prev items below pidx Hinv Hin Hne Hm Hs Hb Hlt Hown.
   set (c := OList i (prev ++ items)).
   exists (mutate i c (set_stack st (OList i prev :: below))).
-  destruct Hinv as [[Hst Hmm] Hrest]. pose proof Hst as Hst'. rewrite Hs in Hst'.
-  apply forallb_app_split in Hst'. destruct Hst' as [Hit Hst']. rewrite forallb_rev' in Hit.
+  assert (Hsub : subst i c (OList i prev) = c) by (cbn [subst]; rewrite Nat.eqb_refl; reflexivity).
+  pose proof Hinv as [[Hst _] _]. rewrite Hs in Hst.
+  apply forallb_app_split in Hst. destruct Hst as [Hit Hst']. rewrite forallb_rev' in Hit.
   cbn [forallb] in Hst'. apply andb_true_iff in Hst'. destruct Hst' as [_ Hst'].
-  split; [|split; [|split]].
+  split; [|split; [|split; [|split; [|split]]]].
   - cbn [step]. unfold with_mark. rewrite Hs, (to_mark_rev _ _ Hm). unfold do_extend. cbn [pop1 is_mark].
     destruct items as [|x r]; [contradiction|]. reflexivity.
-  - apply (mutate_stack i c _ (OList i prev) below); [reflexivity | | exact Hb].
-    cbn [subst]. rewrite Nat.eqb_refl. reflexivity.
+  - apply (mutate_stack i c _ (OList i prev) below); [reflexivity | exact Hsub | exact Hb].
   - reflexivity.
-  - apply inv_mutate.
-    + apply inv_set_stack_sub; [split; [split|]; assumption | exact Hst'].
-    + cbn [forallb ids_below] in Hst'. apply andb_true_iff in Hst'. destruct Hst' as [Ht _].
-      apply andb_true_iff in Ht. destruct Ht as [Hl Hp].
-      cbn [ids_below c set_stack next]. rewrite Hl, forallb_app, Hp, Hit. reflexivity.
+  - apply inv_mutate; [apply inv_set_stack_sub; assumption | exact Hin|].
+    cbn [forallb ids_below] in Hst'. apply andb_true_iff in Hst'. destruct Hst' as [Ht _].
+    apply andb_true_iff in Ht. destruct Ht as [Hl Hp].
+    cbn [ids_below c set_stack next]. rewrite Hl, forallb_app, Hp, Hit. reflexivity.
+  - intros idx E. apply (mutate_memo_own i c st _ idx _ (Hown idx E) Hsub).
+  - intros idx o Hg Ho. apply mutate_memo_old; assumption.
 Qed.
 
-Lemma append_step : forall w cs st i prev o below,
-  inv cs st -> is_mark o = false ->
+Lemma append_step : forall w cs pend st i prev o below pidx,
+  inv cs pend st -> In i pend -> is_mark o = false ->
   stack st = o :: OList i prev :: below ->
-  forallb (ids_below i) below = true -> i < next st ->
+  forallb (ids_below i) below = true -> i < next st -> own_entry pidx st (OList i prev) ->
   exists st', step w st APPEND = SNext st' /\ stack st' = OList i (prev ++ [o]) :: below /\
-              next st' = next st /\ inv cs st'.
+              next st' = next st /\ inv cs pend st' /\ own_entry pidx st' (OList i (prev ++ [o])) /\ old_kept i st st'.
 Proof.
-  intros w cs st i prev o below Hinv Hm Hs Hb Hlt.
+  intros w cs pend st i prev o below pidx Hinv Hin Hm Hs Hb Hlt Hown.
   set (c := OList i (prev ++ [o])).
   exists (mutate i c (set_stack st (OList i prev :: below))).
-  destruct Hinv as [[Hst Hmm] Hrest]. pose proof Hst as Hst'. rewrite Hs in Hst'.
-  cbn [forallb] in Hst'. apply andb_true_iff in Hst'. destruct Hst' as [Ho Hst'].
-  split; [|split; [|split]].
+  assert (Hsub : subst i c (OList i prev) = c) by (cbn [subst]; rewrite Nat.eqb_refl; reflexivity).
+  pose proof Hinv as [[Hst _] _]. rewrite Hs in Hst.
+  cbn [forallb] in Hst. apply andb_true_iff in Hst. destruct Hst as [Ho Hst'].
+  split; [|split; [|split; [|split; [|split]]]].
   - cbn [step]. rewrite Hs. cbn [pop1]. rewrite Hm. unfold do_extend. cbn [pop1 is_mark]. reflexivity.
-  - apply (mutate_stack i c _ (OList i prev) below); [reflexivity | | exact Hb].
-    cbn [subst]. rewrite Nat.eqb_refl. reflexivity.
+  - apply (mutate_stack i c _ (OList i prev) below); [reflexivity | exact Hsub | exact Hb].
   - reflexivity.
-  - apply inv_mutate.
-    + apply inv_set_stack_sub; [split; [split|]; assumption | exact Hst'].
-    + cbn [forallb ids_below] in Hst'. apply andb_true_iff in Hst'. destruct Hst' as [Ht _].
-      apply andb_true_iff in Ht. destruct Ht as [Hl Hp].
-      cbn [ids_below c set_stack next]. rewrite Hl, forallb_app, Hp. cbn. rewrite Ho. reflexivity.
+  - apply inv_mutate; [apply inv_set_stack_sub; assumption | exact Hin|].
+    cbn [forallb ids_below] in Hst'. apply andb_true_iff in Hst'. destruct Hst' as [Ht _].
+    apply andb_true_iff in Ht. destruct Ht as [Hl Hp].
+    cbn [ids_below c set_stack next]. rewrite Hl, forallb_app, Hp. cbn. rewrite Ho. reflexivity.
+  - intros idx E. apply (mutate_memo_own i c st _ idx _ (Hown idx E) Hsub).
+  - intros idx x Hg Hx. apply mutate_memo_old; assumption.
 Qed.
 
+Definition items_res (w : world) (cs' : cstate) (pend : list nat) (st : state) (prog rest : list op)
+    (i : nat) (prev batch below : list obj) (pidx : option Z) (xs : list pv) : Prop :=
+  exists os st', run w st prog = run w st' rest /\ stack st' = OList i (prev ++ batch ++ os) :: below /\
+     Forall2 (fun o v => decode o = Some v) os xs /\ forallb (noccur_all pend) (prev ++ batch ++ os) = true /\
+     inv cs' pend st' /\ next st <= next st' /\
+     own_entry pidx st' (OList i (prev ++ batch ++ os)) /\ old_kept i st st'.
+
 Lemma items_sound : forall w chkf xs, Forall (member_sound w chkf) xs ->
-  forall inm cs prog cs' rest st i prev batch below,
-  items_gen chkf xs inm cs prog = Some (cs', rest) -> inv cs st ->
+  forall inm cs pend prog cs' rest st i prev batch below pidx,
+  items_gen chkf xs inm cs prog = Some (cs', rest) -> inv cs pend st -> In i pend ->
+  Forall (fun j => j < next st) pend ->
   stack st = ((if inm then rev batch ++ [OMark] else []) ++ OList i prev :: below)%list ->
   (inm = false -> batch = []) -> existsb is_mark batch = false ->
-  forallb (ids_below i) below = true -> i < next st ->
-  exists os st', run w st prog = run w st' rest /\ stack st' = OList i (prev ++ batch ++ os) :: below /\
-     Forall2 (fun o v => decode o = Some v) os xs /\ inv cs' st' /\ next st <= next st'.
+  forallb (noccur_all pend) (prev ++ batch) = true ->
+  forallb (ids_below i) below = true -> own_entry pidx st (OList i prev) ->
+  items_res w cs' pend st prog rest i prev batch below pidx xs.
 Proof.
   intros w chkf xs HF. induction HF as [|x r Hx Hr IH];
-    intros inm cs prog cs' rest st i prev batch below H Hinv Hs Hbat Hmk Hb Hlt; cbn [items_gen] in H.
+    intros inm cs pend prog cs' rest st i prev batch below pidx H Hinv Hin Hp Hs Hbat Hmk Hno Hb Hown;
+    cbn [items_gen] in H; unfold items_res.
   - destruct inm; [discriminate|]. inversion H; subst cs' rest. rewrite (Hbat eq_refl) in *. cbn [app] in *.
-    exists [], st. rewrite !app_nil_r.
-    split; [reflexivity|]. split; [exact Hs|]. split; [constructor|]. split; [exact Hinv | lia].
-  - (* inside a batch (already open, or opened by MARK now) *)
-    assert (Hbatch : forall st0 p0 bat,
-              run w st prog = run w st0 p0 -> next st0 = next st -> inv cs st0 ->
-              stack st0 = (rev bat ++ OMark :: OList i prev :: below)%list -> bat = batch ->
+    exists [], st. rewrite !app_nil_r in *.
+    split; [reflexivity|]. split; [exact Hs|]. split; [constructor|]. split; [exact Hno|]. split; [exact Hinv|].
+    split; [lia|]. split; [exact Hown | apply old_kept_refl].
+  - assert (Hilt : i < next st) by (rewrite Forall_forall in Hp; apply Hp; exact Hin).
+    assert (Hbatch : forall st0 p0,
+              run w st prog = run w st0 p0 -> next st0 = next st -> inv cs pend st0 -> memo_ext st st0 ->
+              stack st0 = (rev batch ++ OMark :: OList i prev :: below)%list ->
               match chkf x cs p0 with
               | Some (cs1, p1) => match p1 with
                                   | APPENDS :: p2 => items_gen chkf r false cs1 p2
@@ -595,76 +845,94 @@ Proof.
                                   end
               | None => None
               end = Some (cs', rest) ->
-              exists os st', run w st prog = run w st' rest /\ stack st' = OList i (prev ++ batch ++ os) :: below /\
-                Forall2 (fun o v => decode o = Some v) os (x :: r) /\ inv cs' st' /\ next st <= next st').
-    { intros st0 p0 bat Hr0 Hn0 Hi0 Hs0 Ebat H0. subst bat.
+              items_res w cs' pend st prog rest i prev batch below pidx (x :: r)).
+    { intros st0 p0 Hr0 Hn0 Hi0 He0 Hs0 H0. unfold items_res.
       destruct (chkf x cs p0) as [[cs1 p1]|] eqn:E; [|discriminate].
-      destruct (Hx cs p0 cs1 p1 E st0 Hi0) as [o [st1 [Hr1 [Hs1 [Hd1 [Hm1 [_ [Hi1 Hn1]]]]]]]].
+      assert (Hp0 : Forall (fun j => j < next st0) pend) by (rewrite Hn0; exact Hp).
+      destruct (Hx cs p0 cs1 p1 E pend st0 Hi0 Hp0) as [o [st1 [Hr1 [Hs1 [Hd1 [Hm1 [_ [Hno1 [Hi1 [Hn1 He1]]]]]]]]]].
+      assert (He01 : memo_ext st st1) by exact (memo_ext_trans _ _ _ He0 He1).
       assert (Hs1' : stack st1 = (rev (batch ++ [o]) ++ OMark :: OList i prev :: below)%list).
       { rewrite Hs1, Hs0, rev_app_distr. reflexivity. }
       assert (Hmk1 : existsb is_mark (batch ++ [o]) = false).
       { rewrite existsb_app, Hmk. cbn. rewrite Hm1. reflexivity. }
+      assert (Hno' : forallb (noccur_all pend) (prev ++ batch ++ [o]) = true).
+      { rewrite app_assoc, forallb_app, Hno. cbn. rewrite Hno1. reflexivity. }
+      assert (Hp1 : Forall (fun j => j < next st1) pend) by (apply (pend_mono _ (next st)); [lia | exact Hp]).
       assert (Hopen : items_gen chkf r true cs1 p1 = Some (cs', rest) ->
-                exists os st', run w st prog = run w st' rest /\ stack st' = OList i (prev ++ batch ++ os) :: below /\
-                  Forall2 (fun o v => decode o = Some v) os (x :: r) /\ inv cs' st' /\ next st <= next st').
-      { intro H'. destruct (IH true cs1 p1 cs' rest st1 i prev (batch ++ [o]) below H' Hi1) as [os [st' [Hr' [Hs' [Hd' [Hi' Hn']]]]]].
+                items_res w cs' pend st prog rest i prev batch below pidx (x :: r)).
+      { intro H'. destruct (IH true cs1 pend p1 cs' rest st1 i prev (batch ++ [o]) below pidx H' Hi1 Hin Hp1)
+          as [os [st' [Hr' [Hs' [Hd' [Hno'' [Hi' [Hn' [Ho' Hk']]]]]]]]].
         - rewrite Hs1', <- app_assoc. reflexivity.
         - discriminate.
         - exact Hmk1.
+        - exact Hno'.
         - exact Hb.
-        - lia.
-        - exists (o :: os), st'. split; [rewrite Hr0, Hr1; exact Hr'|].
-          rewrite <- app_assoc in Hs'. split; [exact Hs'|]. split; [constructor; assumption|]. split; [exact Hi' | lia]. }
+        - exact (own_entry_ext _ _ _ _ Hown He01).
+        - exists (o :: os), st'. rewrite <- !app_assoc in Hs', Hno'', Ho'. cbn [app] in Hs', Hno'', Ho'.
+          split; [rewrite Hr0, Hr1; exact Hr'|]. split; [exact Hs'|]. split; [constructor; assumption|].
+          split; [exact Hno''|]. split; [exact Hi'|]. split; [lia|]. split; [exact Ho'|].
+          exact (old_kept_trans _ _ _ _ (old_kept_ext i _ _ He01) Hk'). }
       destruct p1 as [|q p1']; [apply Hopen; exact H0|].
       destruct q; try (apply Hopen; exact H0).
-      destruct (appends_step w cs1 st1 i prev (batch ++ [o]) below Hi1) as [st2 [Hst2 [Hs2 [Hn2 Hi2]]]].
+      destruct (appends_step w cs1 pend st1 i prev (batch ++ [o]) below pidx Hi1 Hin)
+        as [st2 [Hst2 [Hs2 [Hn2 [Hi2 [Ho2 Hk2]]]]]].
       + destruct batch; discriminate.
       + exact Hmk1.
       + exact Hs1'.
       + exact Hb.
       + lia.
-      + destruct (IH false cs1 p1' cs' rest st2 i (prev ++ batch ++ [o]) [] below H0 Hi2) as [os [st' [Hr' [Hs' [Hd' [Hi' Hn']]]]]].
+      + exact (own_entry_ext _ _ _ _ Hown He01).
+      + assert (Hp2 : Forall (fun j => j < next st2) pend) by (rewrite Hn2; exact Hp1).
+        destruct (IH false cs1 pend p1' cs' rest st2 i (prev ++ batch ++ [o]) [] below pidx H0 Hi2 Hin Hp2)
+          as [os [st' [Hr' [Hs' [Hd' [Hno'' [Hi' [Hn' [Ho' Hk']]]]]]]]].
         * exact Hs2.
         * reflexivity.
         * reflexivity.
+        * rewrite app_nil_r. exact Hno'.
         * exact Hb.
-        * lia.
-        * exists (o :: os), st'. split; [rewrite Hr0, Hr1, (run_step_next w st1 APPENDS st2 p1' Hst2); exact Hr'|].
-          cbn [app] in Hs'. rewrite <- !app_assoc in Hs'. split; [exact Hs'|].
-          split; [constructor; assumption|]. split; [exact Hi' | lia]. }
-    (* a single item followed by APPEND *)
+        * exact Ho2.
+        * exists (o :: os), st'. cbn [app] in Hs', Hno'', Ho'. rewrite <- !app_assoc in Hs', Hno'', Ho'. cbn [app] in Hs', Hno'', Ho'.
+          split; [rewrite Hr0, Hr1, (run_step_next w st1 APPENDS st2 p1' Hst2); exact Hr'|].
+          split; [exact Hs'|]. split; [constructor; assumption|]. split; [exact Hno''|]. split; [exact Hi'|].
+          split; [lia|]. split; [exact Ho'|].
+          exact (old_kept_trans _ _ _ _ (old_kept_ext i _ _ He01) (old_kept_trans _ _ _ _ Hk2 Hk')). }
     assert (Hsingle : inm = false ->
               match chkf x cs prog with
               | Some (cs1, p1) => match p1 with APPEND :: p2 => items_gen chkf r false cs1 p2 | _ => None end
               | None => None
               end = Some (cs', rest) ->
-              exists os st', run w st prog = run w st' rest /\ stack st' = OList i (prev ++ batch ++ os) :: below /\
-                Forall2 (fun o v => decode o = Some v) os (x :: r) /\ inv cs' st' /\ next st <= next st').
-    { intros Einm H0. subst inm. rewrite (Hbat eq_refl) in *. cbn [app] in Hs.
+              items_res w cs' pend st prog rest i prev batch below pidx (x :: r)).
+    { intros Einm H0. unfold items_res. subst inm. rewrite (Hbat eq_refl) in *. cbn [app] in Hs. rewrite app_nil_r in Hno.
       destruct (chkf x cs prog) as [[cs1 p1]|] eqn:E; [|discriminate].
       destruct p1 as [|q p2]; [discriminate|]. destruct q; try discriminate.
-      destruct (Hx cs prog cs1 _ E st Hinv) as [o [st1 [Hr1 [Hs1 [Hd1 [Hm1 [_ [Hi1 Hn1]]]]]]]].
-      destruct (append_step w cs1 st1 i prev o below Hi1 Hm1) as [st2 [Hst2 [Hs2 [Hn2 Hi2]]]].
+      destruct (Hx cs prog cs1 _ E pend st Hinv Hp) as [o [st1 [Hr1 [Hs1 [Hd1 [Hm1 [_ [Hno1 [Hi1 [Hn1 He1]]]]]]]]]].
+      assert (Hp1 : Forall (fun j => j < next st1) pend) by (apply (pend_mono _ (next st)); [lia | exact Hp]).
+      destruct (append_step w cs1 pend st1 i prev o below pidx Hi1 Hin Hm1) as [st2 [Hst2 [Hs2 [Hn2 [Hi2 [Ho2 Hk2]]]]]].
       + rewrite Hs1, Hs. reflexivity.
       + exact Hb.
       + lia.
-      + destruct (IH false cs1 p2 cs' rest st2 i (prev ++ [o]) [] below H0 Hi2) as [os [st' [Hr' [Hs' [Hd' [Hi' Hn']]]]]].
+      + exact (own_entry_ext _ _ _ _ Hown He1).
+      + assert (Hp2 : Forall (fun j => j < next st2) pend) by (rewrite Hn2; exact Hp1).
+        destruct (IH false cs1 pend p2 cs' rest st2 i (prev ++ [o]) [] below pidx H0 Hi2 Hin Hp2)
+          as [os [st' [Hr' [Hs' [Hd' [Hno'' [Hi' [Hn' [Ho' Hk']]]]]]]]].
         * exact Hs2.
         * reflexivity.
         * reflexivity.
+        * rewrite app_nil_r, forallb_app, Hno. cbn. rewrite Hno1. reflexivity.
         * exact Hb.
-        * lia.
-        * exists (o :: os), st'. split; [rewrite Hr1, (run_step_next w st1 APPEND st2 p2 Hst2); exact Hr'|].
-          cbn [app] in Hs'. rewrite <- !app_assoc in Hs'. cbn [app]. split; [exact Hs'|].
-          split; [constructor; assumption|]. split; [exact Hi' | lia]. }
+        * exact Ho2.
+        * exists (o :: os), st'. cbn [app] in Hs', Hno'', Ho'. rewrite <- !app_assoc in Hs', Hno'', Ho'. cbn [app] in *.
+          split; [rewrite Hr1, (run_step_next w st1 APPEND st2 p2 Hst2); exact Hr'|].
+          split; [exact Hs'|]. split; [constructor; assumption|]. split; [exact Hno''|]. split; [exact Hi'|].
+          split; [lia|]. split; [exact Ho'|].
+          exact (old_kept_trans _ _ _ _ (old_kept_ext i _ _ He1) (old_kept_trans _ _ _ _ Hk2 Hk')). }
     destruct inm.
-    + apply (Hbatch st prog batch); [reflexivity | reflexivity | exact Hinv | | reflexivity | exact H].
+    + apply (Hbatch st prog); [reflexivity | reflexivity | exact Hinv | apply memo_ext_refl | | exact H].
       rewrite Hs, <- app_assoc. reflexivity.
     + destruct prog as [|q p]; [apply Hsingle; [reflexivity | exact H]|].
       destruct q; try (apply Hsingle; [reflexivity | exact H]).
-      (* MARK opens a batch *)
       rewrite (Hbat eq_refl) in *.
-      apply (Hbatch (push OMark st) p []); [| reflexivity | | | reflexivity | exact H].
+      apply (Hbatch (push OMark st) p); [| reflexivity | | apply memo_ext_same; reflexivity | | exact H].
       * apply run_step_next. reflexivity.
       * apply inv_push; [exact Hinv | reflexivity].
       * cbn. rewrite Hs. reflexivity.
@@ -686,83 +954,100 @@ Qed.
 Lemma hashable_atoms : forall xs, forallb hashable (map obj_of_atom xs) = true.
 Proof. induction xs as [|a r IH]; cbn; [reflexivity|]. rewrite hashable_atom. exact IH. Qed.
 
-Lemma dict_step_common : forall cs st i prev ps below ka kb,
-  inv cs st -> forallb (ids_below (next st)) (flatten ps) = true ->
+Lemma dict_step_common : forall cs pend st i prev ps below ka kb pidx,
+  inv cs pend st -> In i pend -> forallb (ids_below (next st)) (flatten ps) = true ->
   forallb (ids_below (next st)) (ODict i prev :: below) = true ->
   map fst prev = map obj_of_atom ka -> map fst ps = map obj_of_atom kb -> nodup_atoms (ka ++ kb) = true ->
-  forallb (ids_below i) below = true ->
+  forallb (ids_below i) below = true -> own_entry pidx st (ODict i prev) ->
+  let st' := mutate i (ODict i (prev ++ ps)) (set_stack st (ODict i prev :: below)) in
   dict_set_all ps prev = Some (prev ++ ps)%list /\
-  stack (mutate i (ODict i (prev ++ ps)) (set_stack st (ODict i prev :: below))) = ODict i (prev ++ ps) :: below /\
-  inv cs (mutate i (ODict i (prev ++ ps)) (set_stack st (ODict i prev :: below))).
+  stack st' = ODict i (prev ++ ps) :: below /\ inv cs pend st' /\
+  own_entry pidx st' (ODict i (prev ++ ps)) /\ old_kept i st st'.
 Proof.
-  intros cs st i prev ps below ka kb Hinv Hps Hst Hka Hkb Hnd Hb. split; [|split].
+  intros cs pend st i prev ps below ka kb pidx Hinv Hin Hps Hst Hka Hkb Hnd Hb Hown st'.
+  assert (Hsub : subst i (ODict i (prev ++ ps)) (ODict i prev) = ODict i (prev ++ ps))
+    by (cbn [subst]; rewrite Nat.eqb_refl; reflexivity).
+  split; [|split; [|split; [|split]]].
   - apply dict_set_all_fresh; [rewrite Hkb; apply hashable_atoms|].
     rewrite Hka, Hkb, <- map_app, nodup_keys_atoms. exact Hnd.
-  - apply (mutate_stack i _ _ (ODict i prev) below); [reflexivity | | exact Hb].
-    cbn [subst]. rewrite Nat.eqb_refl. reflexivity.
-  - apply inv_mutate; [apply inv_set_stack_sub; assumption|].
+  - apply (mutate_stack i _ _ (ODict i prev) below); [reflexivity | exact Hsub | exact Hb].
+  - apply inv_mutate; [apply inv_set_stack_sub; assumption | exact Hin|].
     cbn [forallb ids_below] in Hst. apply andb_true_iff in Hst. destruct Hst as [Ht _].
     apply andb_true_iff in Ht. destruct Ht as [Hl Hp].
     cbn [ids_below set_stack next]. rewrite Hl, forallb_app, Hp, (forallb_flatten _ _ Hps). reflexivity.
+  - intros idx E. apply (mutate_memo_own i _ st _ idx _ (Hown idx E) Hsub).
+  - intros idx o Hg Ho. apply mutate_memo_old; assumption.
 Qed.
 
-Lemma setitems_step : forall w cs st i prev ps below ka kb,
-  inv cs st -> ps <> [] -> existsb is_mark (flatten ps) = false ->
+Lemma setitems_step : forall w cs pend st i prev ps below ka kb pidx,
+  inv cs pend st -> In i pend -> ps <> [] -> existsb is_mark (flatten ps) = false ->
   stack st = (rev (flatten ps) ++ OMark :: ODict i prev :: below)%list ->
   map fst prev = map obj_of_atom ka -> map fst ps = map obj_of_atom kb -> nodup_atoms (ka ++ kb) = true ->
-  forallb (ids_below i) below = true ->
+  forallb (ids_below i) below = true -> own_entry pidx st (ODict i prev) ->
   exists st', step w st SETITEMS = SNext st' /\ stack st' = ODict i (prev ++ ps) :: below /\
-              next st' = next st /\ inv cs st'.
+              next st' = next st /\ inv cs pend st' /\ own_entry pidx st' (ODict i (prev ++ ps)) /\ old_kept i st st'.
 Proof.
-  intros w cs st i prev ps below ka kb Hinv Hne Hm Hs Hka Hkb Hnd Hb.
+  intros w cs pend st i prev ps below ka kb pidx Hinv Hin Hne Hm Hs Hka Hkb Hnd Hb Hown.
   pose proof Hinv as [[Hst _] _]. rewrite Hs in Hst. apply forallb_app_split in Hst. destruct Hst as [Hit Hst].
   rewrite forallb_rev' in Hit. cbn [forallb] in Hst. apply andb_true_iff in Hst. destruct Hst as [_ Hst].
-  destruct (dict_step_common cs st i prev ps below ka kb Hinv Hit Hst Hka Hkb Hnd Hb) as [Hd [Hs' Hi']].
-  eexists. split; [|split; [exact Hs' | split; [reflexivity | exact Hi']]].
+  destruct (dict_step_common cs pend st i prev ps below ka kb pidx Hinv Hin Hit Hst Hka Hkb Hnd Hb Hown)
+    as [Hd [Hs' [Hi' [Ho' Hk']]]].
+  eexists. split; [|split; [exact Hs' | split; [reflexivity | split; [exact Hi' | split; [exact Ho' | exact Hk']]]]].
   cbn [step]. unfold with_mark. rewrite Hs, (to_mark_rev _ _ Hm). unfold do_setitems. cbn [pop1 is_mark].
   destruct (flatten ps) as [|x r] eqn:E; [destruct ps as [|[k v] ps']; [contradiction | discriminate]|].
   rewrite <- E, pairs_of_flatten, Hd. reflexivity.
 Qed.
 
-Lemma setitem_step : forall w cs st i prev k v below ka a,
-  inv cs st -> is_mark v = false ->
-  stack st = v :: obj_of_atom a :: ODict i prev :: below -> k = obj_of_atom a ->
+Lemma setitem_step : forall w cs pend st i prev v below ka a pidx,
+  inv cs pend st -> In i pend -> is_mark v = false ->
+  stack st = v :: obj_of_atom a :: ODict i prev :: below ->
   map fst prev = map obj_of_atom ka -> nodup_atoms (ka ++ [a]) = true ->
-  forallb (ids_below i) below = true ->
-  exists st', step w st SETITEM = SNext st' /\ stack st' = ODict i (prev ++ [(k, v)]) :: below /\
-              next st' = next st /\ inv cs st'.
+  forallb (ids_below i) below = true -> own_entry pidx st (ODict i prev) ->
+  exists st', step w st SETITEM = SNext st' /\ stack st' = ODict i (prev ++ [(obj_of_atom a, v)]) :: below /\
+              next st' = next st /\ inv cs pend st' /\
+              own_entry pidx st' (ODict i (prev ++ [(obj_of_atom a, v)])) /\ old_kept i st st'.
 Proof.
-  intros w cs st i prev k v below ka a Hinv Hm Hs Hk Hka Hnd Hb. subst k.
+  intros w cs pend st i prev v below ka a pidx Hinv Hin Hm Hs Hka Hnd Hb Hown.
   pose proof Hinv as [[Hst _] _]. rewrite Hs in Hst. cbn [forallb] in Hst.
   apply andb_true_iff in Hst. destruct Hst as [Hv Hst]. apply andb_true_iff in Hst. destruct Hst as [Hk Hst].
-  destruct (dict_step_common cs st i prev [(obj_of_atom a, v)] below ka [a] Hinv) as [Hd [Hs' Hi']];
-    try assumption; try reflexivity.
+  destruct (dict_step_common cs pend st i prev [(obj_of_atom a, v)] below ka [a] pidx Hinv Hin)
+    as [Hd [Hs' [Hi' [Ho' Hk']]]]; try assumption; try reflexivity.
   { cbn. rewrite Hk, Hv. reflexivity. }
-  eexists. split; [|split; [exact Hs' | split; [reflexivity | exact Hi']]].
+  eexists. split; [|split; [exact Hs' | split; [reflexivity | split; [exact Hi' | split; [exact Ho' | exact Hk']]]]].
   cbn [step]. rewrite Hs. cbn [pop1]. rewrite Hm. cbn [pop1]. rewrite (is_mark_atom a).
   unfold do_setitems. cbn [pop1 is_mark pairs_of]. rewrite Hd. reflexivity.
 Qed.
 
+Definition kitems_res (w : world) (cs' : cstate) (pend : list nat) (st : state) (prog rest : list op)
+    (i : nat) (prev batch : list (obj * obj)) (below : list obj) (pidx : option Z) (kvs : list (atom * pv)) : Prop :=
+  exists ps st', run w st prog = run w st' rest /\ stack st' = ODict i (prev ++ batch ++ ps) :: below /\
+     Forall2 (fun p kv => fst p = obj_of_atom (fst kv) /\ decode (snd p) = Some (snd kv)) ps kvs /\
+     forallb (noccur_all pend) (map snd (prev ++ batch ++ ps)) = true /\
+     inv cs' pend st' /\ next st <= next st' /\
+     own_entry pidx st' (ODict i (prev ++ batch ++ ps)) /\ old_kept i st st'.
+
 Lemma kitems_sound : forall w chkf (kvs : list (atom * pv)), Forall (fun kv => member_sound w chkf (snd kv)) kvs ->
-  forall inm cs prog cs' rest st i prev batch below ka kb,
-  kitems_gen chkf kvs inm cs prog = Some (cs', rest) -> inv cs st ->
+  forall inm cs pend prog cs' rest st i prev batch below ka kb pidx,
+  kitems_gen chkf kvs inm cs prog = Some (cs', rest) -> inv cs pend st -> In i pend ->
+  Forall (fun j => j < next st) pend ->
   stack st = ((if inm then rev (flatten batch) ++ [OMark] else []) ++ ODict i prev :: below)%list ->
   (inm = false -> batch = []) -> existsb is_mark (flatten batch) = false ->
   map fst prev = map obj_of_atom ka -> map fst batch = map obj_of_atom kb ->
   nodup_atoms (ka ++ kb ++ map fst kvs) = true ->
-  forallb (ids_below i) below = true -> i < next st ->
-  exists ps st', run w st prog = run w st' rest /\ stack st' = ODict i (prev ++ batch ++ ps) :: below /\
-     Forall2 (fun p kv => fst p = obj_of_atom (fst kv) /\ decode (snd p) = Some (snd kv)) ps kvs /\
-     inv cs' st' /\ next st <= next st'.
+  forallb (noccur_all pend) (map snd (prev ++ batch)) = true ->
+  forallb (ids_below i) below = true -> own_entry pidx st (ODict i prev) ->
+  kitems_res w cs' pend st prog rest i prev batch below pidx kvs.
 Proof.
   intros w chkf kvs HF. induction HF as [|[k x] r Hx Hr IH];
-    intros inm cs prog cs' rest st i prev batch below ka kb H Hinv Hs Hbat Hmk Hka Hkb Hnd Hb Hlt; cbn [kitems_gen] in H.
+    intros inm cs pend prog cs' rest st i prev batch below ka kb pidx H Hinv Hin Hp Hs Hbat Hmk Hka Hkb Hnd Hno Hb Hown;
+    cbn [kitems_gen] in H; unfold kitems_res.
   - destruct inm; [discriminate|]. inversion H; subst cs' rest. rewrite (Hbat eq_refl) in *. cbn [app] in *.
-    exists [], st. rewrite !app_nil_r.
-    split; [reflexivity|]. split; [exact Hs|]. split; [constructor|]. split; [exact Hinv | lia].
+    exists [], st. rewrite !app_nil_r in *.
+    split; [reflexivity|]. split; [exact Hs|]. split; [constructor|]. split; [exact Hno|]. split; [exact Hinv|].
+    split; [lia|]. split; [exact Hown | apply old_kept_refl].
   - cbn [snd] in Hx. cbn [map fst] in Hnd.
     assert (Hbatch : forall st0 p0,
-              run w st prog = run w st0 p0 -> next st0 = next st -> inv cs st0 ->
+              run w st prog = run w st0 p0 -> next st0 = next st -> inv cs pend st0 -> memo_ext st st0 ->
               stack st0 = (rev (flatten batch) ++ OMark :: ODict i prev :: below)%list ->
               match chk_atom k cs p0 with
               | Some (cs2, p2) =>
@@ -775,14 +1060,14 @@ Proof.
                   end
               | None => None
               end = Some (cs', rest) ->
-              exists ps st', run w st prog = run w st' rest /\ stack st' = ODict i (prev ++ batch ++ ps) :: below /\
-                Forall2 (fun p kv => fst p = obj_of_atom (fst kv) /\ decode (snd p) = Some (snd kv)) ps ((k, x) :: r) /\
-                inv cs' st' /\ next st <= next st').
-    { intros st0 p0 Hr0 Hn0 Hi0 Hs0 H0.
+              kitems_res w cs' pend st prog rest i prev batch below pidx ((k, x) :: r)).
+    { intros st0 p0 Hr0 Hn0 Hi0 He0 Hs0 H0. unfold kitems_res.
       destruct (chk_atom k cs p0) as [[cs2 p2]|] eqn:Ek; [|discriminate].
-      destruct (atom_sound w k cs p0 cs2 p2 st0 Ek Hi0) as [sta [Hra [Hsa [Hna Hia]]]].
+      destruct (atom_sound w k cs pend p0 cs2 p2 st0 Ek Hi0) as [sta [Hra [Hsa [Hna [Hia Hea]]]]].
       destruct (chkf x cs2 p2) as [[cs3 p3]|] eqn:E; [|discriminate].
-      destruct (Hx cs2 p2 cs3 p3 E sta Hia) as [o [st1 [Hr1 [Hs1 [Hd1 [Hm1 [_ [Hi1 Hn1]]]]]]]].
+      assert (Hpa : Forall (fun j => j < next sta) pend) by (rewrite Hna, Hn0; exact Hp).
+      destruct (Hx cs2 p2 cs3 p3 E pend sta Hia Hpa) as [o [st1 [Hr1 [Hs1 [Hd1 [Hm1 [_ [Hno1 [Hi1 [Hn1 He1]]]]]]]]]].
+      assert (He01 : memo_ext st st1) by exact (memo_ext_trans _ _ _ He0 (memo_ext_trans _ _ _ Hea He1)).
       set (batch1 := (batch ++ [(obj_of_atom k, o)])%list).
       assert (Hs1' : stack st1 = (rev (flatten batch1) ++ OMark :: ODict i prev :: below)%list).
       { unfold batch1. rewrite Hs1, Hsa, Hs0, flatten_app, rev_app_distr. reflexivity. }
@@ -790,26 +1075,33 @@ Proof.
       { unfold batch1. rewrite flatten_app, existsb_app, Hmk. cbn. rewrite is_mark_atom, Hm1. reflexivity. }
       assert (Hkb1 : map fst batch1 = map obj_of_atom (kb ++ [k])).
       { unfold batch1. rewrite !map_app, Hkb. reflexivity. }
+      assert (Hno' : forallb (noccur_all pend) (map snd (prev ++ batch1)) = true).
+      { unfold batch1. rewrite app_assoc, map_app, forallb_app, Hno. cbn. rewrite Hno1. reflexivity. }
+      assert (Hp1 : Forall (fun j => j < next st1) pend) by (apply (pend_mono _ (next st)); [lia | exact Hp]).
       assert (Hopen : kitems_gen chkf r true cs3 p3 = Some (cs', rest) ->
-                exists ps st', run w st prog = run w st' rest /\ stack st' = ODict i (prev ++ batch ++ ps) :: below /\
-                  Forall2 (fun p kv => fst p = obj_of_atom (fst kv) /\ decode (snd p) = Some (snd kv)) ps ((k, x) :: r) /\
-                  inv cs' st' /\ next st <= next st').
+                kitems_res w cs' pend st prog rest i prev batch below pidx ((k, x) :: r)).
       { intro H'.
-        destruct (IH true cs3 p3 cs' rest st1 i prev batch1 below ka (kb ++ [k]) H' Hi1) as [ps [st' [Hr' [Hs' [Hd' [Hi' Hn']]]]]].
+        destruct (IH true cs3 pend p3 cs' rest st1 i prev batch1 below ka (kb ++ [k]) pidx H' Hi1 Hin Hp1)
+          as [ps [st' [Hr' [Hs' [Hd' [Hno'' [Hi' [Hn' [Ho' Hk']]]]]]]]].
         - rewrite Hs1', <- app_assoc. reflexivity.
         - discriminate.
         - exact Hmk1.
         - exact Hka.
         - exact Hkb1.
         - rewrite <- app_assoc. exact Hnd.
+        - exact Hno'.
         - exact Hb.
-        - lia.
-        - exists ((obj_of_atom k, o) :: ps), st'. split; [rewrite Hr0, Hra, Hr1; exact Hr'|].
-          unfold batch1 in Hs'. rewrite <- app_assoc in Hs'. split; [exact Hs'|].
-          split; [constructor; [split; [reflexivity | exact Hd1] | exact Hd']|]. split; [exact Hi' | lia]. }
+        - exact (own_entry_ext _ _ _ _ Hown He01).
+        - exists ((obj_of_atom k, o) :: ps), st'. unfold batch1 in Hs', Hno'', Ho'. rewrite <- !app_assoc in Hs', Hno'', Ho'.
+          cbn [app] in Hs', Hno'', Ho'.
+          split; [rewrite Hr0, Hra, Hr1; exact Hr'|]. split; [exact Hs'|].
+          split; [constructor; [split; [reflexivity | exact Hd1] | exact Hd']|]. split; [exact Hno''|].
+          split; [exact Hi'|]. split; [lia|]. split; [exact Ho'|].
+          exact (old_kept_trans _ _ _ _ (old_kept_ext i _ _ He01) Hk'). }
       destruct p3 as [|q p4]; [apply Hopen; exact H0|].
       destruct q; try (apply Hopen; exact H0).
-      destruct (setitems_step w cs3 st1 i prev batch1 below ka (kb ++ [k]) Hi1) as [st2 [Hst2 [Hs2 [Hn2 Hi2]]]].
+      destruct (setitems_step w cs3 pend st1 i prev batch1 below ka (kb ++ [k]) pidx Hi1 Hin)
+        as [st2 [Hst2 [Hs2 [Hn2 [Hi2 [Ho2 Hk2]]]]]].
       + unfold batch1. destruct batch; discriminate.
       + exact Hmk1.
       + exact Hs1'.
@@ -817,20 +1109,26 @@ Proof.
       + exact Hkb1.
       + apply (nodup_atoms_prefix _ (map fst r)). rewrite <- !app_assoc. exact Hnd.
       + exact Hb.
-      + destruct (IH false cs3 p4 cs' rest st2 i (prev ++ batch1) [] below (ka ++ kb ++ [k]) [] H0 Hi2)
-          as [ps [st' [Hr' [Hs' [Hd' [Hi' Hn']]]]]].
+      + exact (own_entry_ext _ _ _ _ Hown He01).
+      + assert (Hp2 : Forall (fun j => j < next st2) pend) by (rewrite Hn2; exact Hp1).
+        destruct (IH false cs3 pend p4 cs' rest st2 i (prev ++ batch1) [] below (ka ++ kb ++ [k]) [] pidx H0 Hi2 Hin Hp2)
+          as [ps [st' [Hr' [Hs' [Hd' [Hno'' [Hi' [Hn' [Ho' Hk']]]]]]]]].
         * exact Hs2.
         * reflexivity.
         * reflexivity.
         * rewrite map_app, Hka, Hkb1, <- map_app. reflexivity.
         * reflexivity.
         * cbn [app]. rewrite <- !app_assoc. exact Hnd.
+        * rewrite app_nil_r. exact Hno'.
         * exact Hb.
-        * lia.
+        * exact Ho2.
         * exists ((obj_of_atom k, o) :: ps), st'.
+          unfold batch1 in Hs', Hno'', Ho'. cbn [app] in Hs', Hno'', Ho'. rewrite <- !app_assoc in Hs', Hno'', Ho'.
+          cbn [app] in Hs', Hno'', Ho'.
           split; [rewrite Hr0, Hra, Hr1, (run_step_next w st1 SETITEMS st2 p4 Hst2); exact Hr'|].
-          unfold batch1 in Hs'. cbn [app] in Hs'. rewrite <- !app_assoc in Hs'. split; [exact Hs'|].
-          split; [constructor; [split; [reflexivity | exact Hd1] | exact Hd']|]. split; [exact Hi' | lia]. }
+          split; [exact Hs'|]. split; [constructor; [split; [reflexivity | exact Hd1] | exact Hd']|].
+          split; [exact Hno''|]. split; [exact Hi'|]. split; [lia|]. split; [exact Ho'|].
+          exact (old_kept_trans _ _ _ _ (old_kept_ext i _ _ He01) (old_kept_trans _ _ _ _ Hk2 Hk')). }
     assert (Hsingle : inm = false ->
               match chk_atom k cs prog with
               | Some (cs2, p2) =>
@@ -840,43 +1138,49 @@ Proof.
                   end
               | None => None
               end = Some (cs', rest) ->
-              exists ps st', run w st prog = run w st' rest /\ stack st' = ODict i (prev ++ batch ++ ps) :: below /\
-                Forall2 (fun p kv => fst p = obj_of_atom (fst kv) /\ decode (snd p) = Some (snd kv)) ps ((k, x) :: r) /\
-                inv cs' st' /\ next st <= next st').
-    { intros Einm H0. subst inm. rewrite (Hbat eq_refl) in *. cbn [app] in Hs. cbn [map] in Hkb.
+              kitems_res w cs' pend st prog rest i prev batch below pidx ((k, x) :: r)).
+    { intros Einm H0. unfold kitems_res. subst inm. rewrite (Hbat eq_refl) in *. cbn [app] in Hs. cbn [map] in Hkb.
+      rewrite app_nil_r in Hno.
       assert (Ekb : kb = []) by (destruct kb; [reflexivity | discriminate]). subst kb. cbn [app] in Hnd.
       destruct (chk_atom k cs prog) as [[cs2 p2]|] eqn:Ek; [|discriminate].
-      destruct (atom_sound w k cs prog cs2 p2 st Ek Hinv) as [sta [Hra [Hsa [Hna Hia]]]].
+      destruct (atom_sound w k cs pend prog cs2 p2 st Ek Hinv) as [sta [Hra [Hsa [Hna [Hia Hea]]]]].
       destruct (chkf x cs2 p2) as [[cs3 p3]|] eqn:E; [|discriminate].
       destruct p3 as [|q p4]; [discriminate|]. destruct q; try discriminate.
-      destruct (Hx cs2 p2 cs3 _ E sta Hia) as [o [st1 [Hr1 [Hs1 [Hd1 [Hm1 [_ [Hi1 Hn1]]]]]]]].
-      destruct (setitem_step w cs3 st1 i prev (obj_of_atom k) o below ka k Hi1 Hm1) as [st2 [Hst2 [Hs2 [Hn2 Hi2]]]].
+      assert (Hpa : Forall (fun j => j < next sta) pend) by (rewrite Hna; exact Hp).
+      destruct (Hx cs2 p2 cs3 _ E pend sta Hia Hpa) as [o [st1 [Hr1 [Hs1 [Hd1 [Hm1 [_ [Hno1 [Hi1 [Hn1 He1]]]]]]]]]].
+      assert (He01 : memo_ext st st1) by exact (memo_ext_trans _ _ _ Hea He1).
+      assert (Hp1 : Forall (fun j => j < next st1) pend) by (apply (pend_mono _ (next st)); [lia | exact Hp]).
+      destruct (setitem_step w cs3 pend st1 i prev o below ka k pidx Hi1 Hin Hm1) as [st2 [Hst2 [Hs2 [Hn2 [Hi2 [Ho2 Hk2]]]]]].
       + rewrite Hs1, Hsa, Hs. reflexivity.
-      + reflexivity.
       + exact Hka.
       + apply (nodup_atoms_prefix _ (map fst r)). rewrite <- app_assoc. exact Hnd.
       + exact Hb.
-      + destruct (IH false cs3 p4 cs' rest st2 i (prev ++ [(obj_of_atom k, o)]) [] below (ka ++ [k]) [] H0 Hi2)
-          as [ps [st' [Hr' [Hs' [Hd' [Hi' Hn']]]]]].
+      + exact (own_entry_ext _ _ _ _ Hown He01).
+      + assert (Hp2 : Forall (fun j => j < next st2) pend) by (rewrite Hn2; exact Hp1).
+        destruct (IH false cs3 pend p4 cs' rest st2 i (prev ++ [(obj_of_atom k, o)]) [] below (ka ++ [k]) [] pidx H0 Hi2 Hin Hp2)
+          as [ps [st' [Hr' [Hs' [Hd' [Hno'' [Hi' [Hn' [Ho' Hk']]]]]]]]].
         * exact Hs2.
         * reflexivity.
         * reflexivity.
         * rewrite !map_app, Hka. reflexivity.
         * reflexivity.
         * cbn [app]. rewrite <- app_assoc. exact Hnd.
+        * rewrite app_nil_r, map_app, forallb_app, Hno. cbn. rewrite Hno1. reflexivity.
         * exact Hb.
-        * lia.
+        * exact Ho2.
         * exists ((obj_of_atom k, o) :: ps), st'.
+          cbn [app] in Hs', Hno'', Ho'. rewrite <- !app_assoc in Hs', Hno'', Ho'. cbn [app] in *.
           split; [rewrite Hra, Hr1, (run_step_next w st1 SETITEM st2 p4 Hst2); exact Hr'|].
-          cbn [app] in Hs'. rewrite <- !app_assoc in Hs'. cbn [app]. split; [exact Hs'|].
-          split; [constructor; [split; [reflexivity | exact Hd1] | exact Hd']|]. split; [exact Hi' | lia]. }
+          split; [exact Hs'|]. split; [constructor; [split; [reflexivity | exact Hd1] | exact Hd']|].
+          split; [exact Hno''|]. split; [exact Hi'|]. split; [lia|]. split; [exact Ho'|].
+          exact (old_kept_trans _ _ _ _ (old_kept_ext i _ _ He01) (old_kept_trans _ _ _ _ Hk2 Hk')). }
     destruct inm.
-    + apply (Hbatch st prog); [reflexivity | reflexivity | exact Hinv | | exact H].
+    + apply (Hbatch st prog); [reflexivity | reflexivity | exact Hinv | apply memo_ext_refl | | exact H].
       rewrite Hs, <- app_assoc. reflexivity.
     + destruct prog as [|q p]; [apply Hsingle; [reflexivity | exact H]|].
       destruct q; try (apply Hsingle; [reflexivity | exact H]).
       rewrite (Hbat eq_refl) in *.
-      apply (Hbatch (push OMark st) p); [| reflexivity | | | exact H].
+      apply (Hbatch (push OMark st) p); [| reflexivity | | apply memo_ext_same; reflexivity | | exact H].
       * apply run_step_next. reflexivity.
       * apply inv_push; [exact Hinv | reflexivity].
       * cbn. rewrite Hs. reflexivity.
@@ -884,96 +1188,126 @@ Qed.
 
 (** * the cases of the main theorem *)
 
-Definition vres (w : world) (v : pv) (cs' : cstate) (st : state) (prog rest : list op) : Prop :=
+Definition vres (w : world) (v : pv) (cs' : cstate) (pend : list nat) (st : state) (prog rest : list op) : Prop :=
   exists o st', run w st prog = run w st' rest /\ stack st' = o :: stack st /\ decode o = Some v /\
-    is_mark o = false /\ (idfree v = true -> o = canon_obj v) /\ inv cs' st' /\ next st <= next st'.
+    is_mark o = false /\ (idfree v = true -> o = canon_obj v) /\ noccur_all pend o = true /\
+    inv cs' pend st' /\ next st <= next st' /\ memo_ext st st'.
 
-Lemma get_case : forall w v cs p r st,
-  (match get_index p with Some i => chk_get cs v i | None => false end) = true -> inv cs st ->
-  vres w v cs st (p :: r) r.
+Lemma get_case : forall w v cs pend p r st,
+  (match get_index p with Some i => chk_get cs v i | None => false end) = true -> inv cs pend st ->
+  vres w v cs pend st (p :: r) r.
 Proof.
-  intros w v cs p r st Eg Hinv. destruct (get_index p) as [i|] eqn:Ei; [|discriminate].
-  destruct (get_sound w cs v i st p Ei Eg Hinv) as [Hs Hf].
-  exists (canon_obj v), (push (canon_obj v) st).
-  split; [apply run_step_next; exact Hs|]. split; [reflexivity|]. split; [apply canon_decode; exact Hf|].
-  split; [apply noids_not_mark; apply canon_noids; exact Hf|]. split; [reflexivity|].
-  split; [apply inv_push; [exact Hinv | apply canon_below; exact Hf] | cbn; lia].
+  intros w v cs pend p r st Eg Hinv. destruct (get_index p) as [i|] eqn:Ei; [|discriminate].
+  destruct (get_sound w cs pend v i st p Ei Eg Hinv) as [o [Hs [Hd [Hc [Hn Hb]]]]].
+  exists o, (push o st).
+  split; [apply run_step_next; exact Hs|]. split; [reflexivity|]. split; [exact Hd|].
+  split; [|split; [exact Hc | split; [exact Hn | split; [apply inv_push; assumption | split; [cbn; lia | apply memo_ext_same; reflexivity]]]]].
+  destruct o; try reflexivity. cbn in Hd. discriminate.
 Qed.
 
-Lemma atom_case : forall w a cs prog cs' rest st,
-  chk_atom a cs prog = Some (cs', rest) -> inv cs st -> vres w (PAtom a) cs' st prog rest.
+Lemma atom_case : forall w a cs pend prog cs' rest st,
+  chk_atom a cs prog = Some (cs', rest) -> inv cs pend st -> vres w (PAtom a) cs' pend st prog rest.
 Proof.
-  intros w a cs prog cs' rest st H Hinv.
-  destruct (atom_sound w a cs prog cs' rest st H Hinv) as [st' [Hr [Hs [Hn Hi]]]].
+  intros w a cs pend prog cs' rest st H Hinv.
+  destruct (atom_sound w a cs pend prog cs' rest st H Hinv) as [st' [Hr [Hs [Hn [Hi He]]]]].
   exists (obj_of_atom a), st'. split; [exact Hr|]. split; [exact Hs|]. split; [apply decode_obj_of_atom|].
-  split; [apply is_mark_atom|]. split; [reflexivity|]. split; [exact Hi | lia].
+  split; [apply is_mark_atom|]. split; [reflexivity|]. split; [apply noccur_atom|]. split; [exact Hi|]. split; [lia | exact He].
 Qed.
 
-(* an object has just been pushed by one step; an optional put follows *)
-Lemma pushed_then_put : forall w v cs p r cs' rest st st1 o,
-  step w st p = SNext st1 -> stack st1 = o :: stack st -> next st <= next st1 -> inv cs st1 ->
-  chk_put cs v r = Some (cs', rest) ->
-  decode o = Some v -> is_mark o = false -> (idfree v = true -> o = canon_obj v) ->
-  vres w v cs' st (p :: r) rest.
+Lemma put_after : forall w v pend prog p1 cs1 cs' rest st st1 o,
+  run w st prog = run w st1 p1 -> stack st1 = o :: stack st -> next st <= next st1 -> inv cs1 pend st1 ->
+  memo_ext st st1 -> chk_put cs1 v p1 = Some (cs', rest) ->
+  decode o = Some v -> is_mark o = false -> (idfree v = true -> o = canon_obj v) -> noccur_all pend o = true ->
+  vres w v cs' pend st prog rest.
 Proof.
-  intros w v cs p r cs' rest st st1 o Hstep Hs1 Hn1 Hi1 Hput Hd Hm Hc.
-  destruct (put_sound w cs v r cs' rest st1 o (stack st) Hput Hi1 Hs1 Hm Hc) as [st2 [Hr2 [Hs2 [Hn2 Hi2]]]].
-  exists o, st2. split; [rewrite (run_step_next w st p st1 r Hstep); exact Hr2|].
-  split; [rewrite Hs2; exact Hs1|]. split; [exact Hd|]. split; [exact Hm|]. split; [exact Hc|]. split; [exact Hi2 | lia].
-Qed.
-
-Lemma put_after : forall w v prog p1 cs1 cs' rest st st1 o,
-  run w st prog = run w st1 p1 -> stack st1 = o :: stack st -> next st <= next st1 -> inv cs1 st1 ->
-  chk_put cs1 v p1 = Some (cs', rest) ->
-  decode o = Some v -> is_mark o = false -> (idfree v = true -> o = canon_obj v) ->
-  vres w v cs' st prog rest.
-Proof.
-  intros w v prog p1 cs1 cs' rest st st1 o Hrun Hs1 Hn1 Hi1 Hput Hd Hm Hc.
-  destruct (put_sound w cs1 v p1 cs' rest st1 o (stack st) Hput Hi1 Hs1 Hm Hc) as [st2 [Hr2 [Hs2 [Hn2 Hi2]]]].
+  intros w v pend prog p1 cs1 cs' rest st st1 o Hrun Hs1 Hn1 Hi1 He1 Hput Hd Hm Hc Hno.
+  destruct (put_sound w cs1 pend v p1 cs' rest st1 o (stack st) Hput Hi1 Hs1 Hm Hd Hc Hno) as [st2 [Hr2 [Hs2 [Hn2 [Hi2 He2]]]]].
   exists o, st2. split; [rewrite Hrun; exact Hr2|].
-  split; [rewrite Hs2; exact Hs1|]. split; [exact Hd|]. split; [exact Hm|]. split; [exact Hc|]. split; [exact Hi2 | lia].
+  split; [rewrite Hs2; exact Hs1|]. split; [exact Hd|]. split; [exact Hm|]. split; [exact Hc|]. split; [exact Hno|].
+  split; [exact Hi2|]. split; [lia | exact (memo_ext_trans _ _ _ He1 He2)].
+Qed.
+
+Lemma pushed_then_put : forall w v cs pend p r cs' rest st st1 o,
+  step w st p = SNext st1 -> stack st1 = o :: stack st -> next st <= next st1 -> inv cs pend st1 -> memo_ext st st1 ->
+  chk_put cs v r = Some (cs', rest) ->
+  decode o = Some v -> is_mark o = false -> (idfree v = true -> o = canon_obj v) -> noccur_all pend o = true ->
+  vres w v cs' pend st (p :: r) rest.
+Proof.
+  intros w v cs pend p r cs' rest st st1 o Hstep. intros.
+  apply (put_after w v pend (p :: r) r cs cs' rest st st1 o); try assumption. apply run_step_next. exact Hstep.
 Qed.
 
 Lemma Forall2_decode_length : forall os (xs : list pv), Forall2 (fun o v => decode o = Some v) os xs ->
   List.length os = List.length xs.
 Proof. intros os xs H. induction H; cbn; [reflexivity | rewrite IHForall2; reflexivity]. Qed.
 
-Lemma tuple_case : forall w xs, Forall (member_sound w chk) xs ->
-  forall cs prog cs' rest st, chk (PTuple xs) cs prog = Some (cs', rest) -> inv cs st ->
-  vres w (PTuple xs) cs' st prog rest.
+Lemma noccur_list : forall pend os, forallb (noccur_all pend) os = true ->
+  forall j, In j pend -> existsb (occurs j) os = false.
 Proof.
-  intros w xs HF cs prog cs' rest st H Hinv. destruct prog as [|p r]; [discriminate|]. cbn [chk] in H.
+  intros pend os H j Hj. induction os as [|o r IH]; [reflexivity|]. cbn in H. apply andb_true_iff in H. destruct H as [H1 H2].
+  cbn. rewrite (noccur_all_in _ _ _ H1 Hj), (IH H2). reflexivity.
+Qed.
+Lemma noccur_tuple : forall pend os, forallb (noccur_all pend) os = true -> noccur_all pend (OTuple os) = true.
+Proof.
+  intros pend os H. unfold noccur_all. apply forallb_forall. intros j Hj. cbn [occurs].
+  rewrite (noccur_list pend os H j Hj). reflexivity.
+Qed.
+(* a container created at or after the current [next] *)
+Lemma noccur_fresh_list : forall pend i os n, Forall (fun j => j < n) pend -> n <= i ->
+  forallb (noccur_all pend) os = true -> noccur_all pend (OList i os) = true.
+Proof.
+  intros pend i os n Hp Hle H. unfold noccur_all. apply forallb_forall. intros j Hj. cbn [occurs].
+  rewrite (noccur_list pend os H j Hj), orb_false_r. rewrite Forall_forall in Hp. specialize (Hp j Hj).
+  apply negb_true_iff. apply Nat.eqb_neq. lia.
+Qed.
+
+Lemma fresh_memo_below : forall st idx o, fresh_state st -> memo_get idx (memo st) = Some o -> ids_below (next st) o = true.
+Proof.
+  intros st idx o [_ Hm] Hg. induction (memo st) as [|[k x] r IH]; cbn in *; [discriminate|].
+  apply andb_true_iff in Hm. destruct Hm as [H1 H2]. destruct (Z.eqb idx k); [inversion Hg; subst; exact H1 | apply IH; assumption].
+Qed.
+Lemma old_kept_memo_ext : forall i st st1 st', fresh_state st -> next st <= i -> memo_ext st st1 -> old_kept i st1 st' -> memo_ext st st'.
+Proof.
+  intros i st st1 st' Hf Hle He Hk idx o Hg. apply Hk; [apply He; exact Hg|].
+  apply (ids_below_mono (next st) i Hle). apply (fresh_memo_below st idx o Hf Hg).
+Qed.
+
+Lemma tuple_case : forall w xs, Forall (member_sound w chk) xs ->
+  forall cs prog cs' rest pend st, chk (PTuple xs) cs prog = Some (cs', rest) -> inv cs pend st ->
+  Forall (fun j => j < next st) pend -> vres w (PTuple xs) cs' pend st prog rest.
+Proof.
+  intros w xs HF cs prog cs' rest pend st H Hinv Hp. destruct prog as [|p r]; [discriminate|]. cbn [chk] in H.
   destruct (match get_index p with Some i => chk_get cs (PTuple xs) i | None => false end) eqn:Eg.
   { inversion H; subst. apply get_case; assumption. }
-  (* what is common once the tuple object is on the stack *)
   assert (Hfin : forall cs1 p1 st1 os, run w st (p :: r) = run w st1 p1 -> stack st1 = OTuple os :: stack st ->
-            next st <= next st1 -> inv cs1 st1 -> Forall2 (fun o v => decode o = Some v) os xs ->
-            (forallb idfree xs = true -> os = map canon_obj xs) ->
-            chk_put cs1 (PTuple xs) p1 = Some (cs', rest) -> vres w (PTuple xs) cs' st (p :: r) rest).
-  { intros cs1 p1 st1 os Hrun Hs1 Hn1 Hi1 Hd Hc Hput.
-    apply (put_after w (PTuple xs) (p :: r) p1 cs1 cs' rest st st1 (OTuple os)); try assumption.
+            next st <= next st1 -> inv cs1 pend st1 -> memo_ext st st1 -> Forall2 (fun o v => decode o = Some v) os xs ->
+            (forallb idfree xs = true -> os = map canon_obj xs) -> forallb (noccur_all pend) os = true ->
+            chk_put cs1 (PTuple xs) p1 = Some (cs', rest) -> vres w (PTuple xs) cs' pend st (p :: r) rest).
+  { intros cs1 p1 st1 os Hrun Hs1 Hn1 Hi1 He1 Hd Hc Hno Hput.
+    apply (put_after w (PTuple xs) pend (p :: r) p1 cs1 cs' rest st st1 (OTuple os)); try assumption.
     - rewrite decode_tuple_eq, (all_some_map_decode _ _ Hd). reflexivity.
     - reflexivity.
-    - intro Hf. cbn [idfree] in Hf. cbn [canon_obj]. rewrite (Hc Hf). reflexivity. }
-  (* TUPLE1 / TUPLE2 / TUPLE3 *)
+    - intro Hf. cbn [idfree] in Hf. cbn [canon_obj]. rewrite (Hc Hf). reflexivity.
+    - apply noccur_tuple. exact Hno. }
   assert (Hsmall : match seq_gen chk xs cs (p :: r) with
                    | Some (cs1, TUPLE1 :: p1) => if Nat.eqb (List.length xs) 1 then chk_put cs1 (PTuple xs) p1 else None
                    | Some (cs1, TUPLE2 :: p1) => if Nat.eqb (List.length xs) 2 then chk_put cs1 (PTuple xs) p1 else None
                    | Some (cs1, TUPLE3 :: p1) => if Nat.eqb (List.length xs) 3 then chk_put cs1 (PTuple xs) p1 else None
                    | _ => None
-                   end = Some (cs', rest) -> vres w (PTuple xs) cs' st (p :: r) rest).
+                   end = Some (cs', rest) -> vres w (PTuple xs) cs' pend st (p :: r) rest).
   { intro H0. destruct (seq_gen chk xs cs (p :: r)) as [[cs1 pp]|] eqn:Es; [|discriminate].
-    destruct (seq_sound w chk xs HF cs (p :: r) cs1 pp st Es Hinv) as [os [st1 [Hr1 [Hs1 [Hd1 [Hm1 [Hc1 [Hi1 Hn1]]]]]]]].
+    destruct (seq_sound w chk xs HF cs (p :: r) cs1 pp pend st Es Hinv Hp)
+      as [os [st1 [Hr1 [Hs1 [Hd1 [Hm1 [Hc1 [Hno1 [Hi1 [Hn1 He1]]]]]]]]]].
     pose proof (Forall2_decode_length _ _ Hd1) as Hlen.
     destruct pp as [|q p1]; [discriminate|]. destruct q; try discriminate.
-    - (* TUPLE1 *) destruct (Nat.eqb (List.length xs) 1) eqn:El; [|discriminate]. apply Nat.eqb_eq in El.
+    - destruct (Nat.eqb (List.length xs) 1) eqn:El; [|discriminate]. apply Nat.eqb_eq in El.
       rewrite El in Hlen. destruct os as [|a [|b os']]; try discriminate.
       cbn in Hm1. apply orb_false_iff in Hm1. destruct Hm1 as [Ma _].
       set (st2 := set_stack st1 (OTuple [a] :: stack st)).
       apply (Hfin cs1 p1 st2 [a]); try assumption; try reflexivity.
       + rewrite Hr1. apply run_step_next. cbn [step]. rewrite Hs1. cbn [rev app pop1]. rewrite Ma. reflexivity.
       + apply inv_set_stack_sub; [exact Hi1|]. destruct Hi1 as [[Hst _] _]. rewrite Hs1 in Hst. cbn in Hst. cbn. rewrite andb_true_r. exact Hst.
-    - (* TUPLE2 *) destruct (Nat.eqb (List.length xs) 2) eqn:El; [|discriminate]. apply Nat.eqb_eq in El.
+    - destruct (Nat.eqb (List.length xs) 2) eqn:El; [|discriminate]. apply Nat.eqb_eq in El.
       rewrite El in Hlen. destruct os as [|a [|b [|c os']]]; try discriminate.
       cbn in Hm1. apply orb_false_iff in Hm1. destruct Hm1 as [Ma Hm1]. apply orb_false_iff in Hm1. destruct Hm1 as [Mb _].
       set (st2 := set_stack st1 (OTuple [a; b] :: stack st)).
@@ -982,7 +1316,7 @@ Proof.
       + apply inv_set_stack_sub; [exact Hi1|]. destruct Hi1 as [[Hst _] _]. rewrite Hs1 in Hst. cbn in Hst.
         apply andb_true_iff in Hst. destruct Hst as [Hb' Hst]. apply andb_true_iff in Hst. destruct Hst as [Ha' Hst].
         cbn. rewrite Ha', Hb', Hst. reflexivity.
-    - (* TUPLE3 *) destruct (Nat.eqb (List.length xs) 3) eqn:El; [|discriminate]. apply Nat.eqb_eq in El.
+    - destruct (Nat.eqb (List.length xs) 3) eqn:El; [|discriminate]. apply Nat.eqb_eq in El.
       rewrite El in Hlen. destruct os as [|a [|b [|c [|d os']]]]; try discriminate.
       cbn in Hm1. apply orb_false_iff in Hm1. destruct Hm1 as [Ma Hm1]. apply orb_false_iff in Hm1. destruct Hm1 as [Mb Hm1].
       apply orb_false_iff in Hm1. destruct Hm1 as [Mc _].
@@ -995,11 +1329,11 @@ Proof.
         apply andb_true_iff in Hst. destruct Hst as [Ha' Hst].
         cbn. rewrite Ha', Hb', Hc', Hst. reflexivity. }
   destruct p; try (apply Hsmall; exact H).
-  - (* MARK: the tuple's own mark, or the first member's *)
-    destruct (seq_gen chk xs cs r) as [[cs1 pp]|] eqn:Es; [|apply Hsmall; exact H].
+  - destruct (seq_gen chk xs cs r) as [[cs1 pp]|] eqn:Es; [|apply Hsmall; exact H].
     destruct pp as [|q p1]; [apply Hsmall; exact H|]. destruct q; try (apply Hsmall; exact H).
-    assert (Hi0 : inv cs (push OMark st)) by (apply inv_push; [exact Hinv | reflexivity]).
-    destruct (seq_sound w chk xs HF cs r cs1 _ (push OMark st) Es Hi0) as [os [st1 [Hr1 [Hs1 [Hd1 [Hm1 [Hc1 [Hi1 Hn1]]]]]]]].
+    assert (Hi0 : inv cs pend (push OMark st)) by (apply inv_push; [exact Hinv | reflexivity]).
+    destruct (seq_sound w chk xs HF cs r cs1 _ pend (push OMark st) Es Hi0 Hp)
+      as [os [st1 [Hr1 [Hs1 [Hd1 [Hm1 [Hc1 [Hno1 [Hi1 [Hn1 He1]]]]]]]]]].
     set (st2 := set_stack st1 (OTuple os :: stack st)).
     apply (Hfin cs1 p1 st2 os); try assumption; try reflexivity.
     + rewrite (run_step_next w st MARK (push OMark st) r eq_refl), Hr1. apply run_step_next.
@@ -1007,124 +1341,197 @@ Proof.
     + apply inv_set_stack_sub; [exact Hi1|]. destruct Hi1 as [[Hst _] _]. rewrite Hs1 in Hst. cbn [push set_stack stack] in Hst.
       apply forallb_app_split in Hst. destruct Hst as [Ho Hst]. rewrite forallb_rev' in Ho. cbn in Hst.
       cbn [forallb ids_below]. rewrite Ho. exact Hst.
-  - (* EMPTY_TUPLE *)
-    destruct xs as [|x xs']; [|discriminate].
-    apply (pushed_then_put w (PTuple []) cs EMPTY_TUPLE r cs' rest st (push (OTuple []) st) (OTuple [])); try reflexivity; try assumption.
+  - destruct xs as [|x xs']; [|discriminate].
+    apply (pushed_then_put w (PTuple []) cs pend EMPTY_TUPLE r cs' rest st (push (OTuple []) st) (OTuple []));
+      [reflexivity | reflexivity | cbn; lia | apply inv_push; [exact Hinv | reflexivity] | apply memo_ext_same; reflexivity
+      | exact H | reflexivity | reflexivity | intro; reflexivity | apply noccur_all_noids; reflexivity].
+Qed.
+
+(* the state right after EMPTY_LIST / EMPTY_DICT / EMPTY_SET, with the new identity pending *)
+Lemma enter_container : forall cs pend st t,
+  inv cs pend st -> Forall (fun j => j < next st) pend -> ids_below (S (next st)) t = true ->
+  let st1 := fresh (push t st) in
+  inv cs (next st :: pend) st1 /\ Forall (fun j => j < next st1) (next st :: pend) /\ memo_ext st st1.
+Proof.
+  intros cs pend st t Hinv Hp Ht st1. split; [|split].
+  - pose proof (inv_enter cs pend st (next st) Hinv (le_n _)) as H1.
+    unfold st1, fresh, push, set_stack. cbn [stack memo next ecache trace]. apply inv_stack; [exact H1 | lia|].
+    cbn [forallb]. rewrite Ht. destruct Hinv as [[Hs _] _].
+    apply (ids_below_all_mono (next st) (S (next st)) _ (Nat.le_succ_diag_r _) Hs).
+  - unfold st1. cbn. constructor; [lia|]. apply (pend_mono _ (next st)); [lia | exact Hp].
+  - apply memo_ext_same. reflexivity.
 Qed.
 
 Lemma list_case : forall w xs, Forall (member_sound w chk) xs ->
-  forall cs prog cs' rest st, chk (PList xs) cs prog = Some (cs', rest) -> inv cs st ->
-  vres w (PList xs) cs' st prog rest.
+  forall cs prog cs' rest pend st, chk (PList xs) cs prog = Some (cs', rest) -> inv cs pend st ->
+  Forall (fun j => j < next st) pend -> vres w (PList xs) cs' pend st prog rest.
 Proof.
-  intros w xs HF cs prog cs' rest st H Hinv. destruct prog as [|p r]; [discriminate|]. cbn [chk] in H.
+  intros w xs HF cs prog cs' rest pend st H Hinv Hp. destruct prog as [|p r]; [discriminate|]. cbn [chk] in H.
   destruct (match get_index p with Some i => chk_get cs (PList xs) i | None => false end) eqn:Eg.
   { inversion H; subst. apply get_case; assumption. }
   destruct p; try discriminate.
-  destruct (chk_put cs (PList xs) r) as [[cs1 p1]|] eqn:Ep; [|discriminate].
-  set (i := next st).
-  set (st1 := fresh (push (OList i []) st)).
-  assert (Hi1 : inv cs st1).
-  { unfold st1, fresh, push, set_stack. cbn [stack memo next ecache trace]. apply inv_stack; [exact Hinv | lia|].
-    cbn [forallb ids_below]. rewrite andb_true_r. destruct Hinv as [[Hs _] _].
-    rewrite (ids_below_all_mono (next st) (S (next st)) _ (Nat.le_succ_diag_r _) Hs), andb_true_r. apply Nat.ltb_lt. unfold i. lia. }
-  destruct (put_sound w cs (PList xs) r cs1 p1 st1 (OList i []) (stack st) Ep Hi1 eq_refl eq_refl)
-    as [st2 [Hr2 [Hs2 [Hn2 Hi2]]]]; [intro; discriminate|].
-  destruct Hinv as [[Hs0 Hm0] Hrest0].
-  destruct (items_sound w chk xs HF false cs1 p1 cs' rest st2 i [] [] (stack st) H Hi2) as [os [st3 [Hr3 [Hs3 [Hd3 [Hi3 Hn3]]]]]].
+  destruct (chk_put_pending cs r) as [[[cs1 p1] pidx]|] eqn:Ep; [|discriminate].
+  destruct (items_gen chk xs false cs1 p1) as [[cs2 p2]|] eqn:Ei; [|discriminate]. inversion H; subst cs' rest. clear H.
+  set (i := next st). set (st1 := fresh (push (OList i []) st)).
+  destruct (enter_container cs pend st (OList i []) Hinv Hp) as [Hi1 [Hp1 He1]].
+  { cbn [ids_below forallb]. rewrite andb_true_r. apply Nat.ltb_lt. unfold i. lia. }
+  fold i st1 in Hi1, Hp1, He1.
+  destruct (put_pending_sound w cs (i :: pend) r cs1 p1 pidx st1 (OList i []) (stack st) Ep Hi1 eq_refl eq_refl)
+    as [st2 [Hr2 [Hs2 [Hn2 [Hi2 [He2 Hown2]]]]]].
+  pose proof Hinv as [[Hs0 Hm0] _].
+  destruct (items_sound w chk xs HF false cs1 (i :: pend) p1 cs2 p2 st2 i [] [] (stack st) pidx Ei Hi2)
+    as [os [st3 [Hr3 [Hs3 [Hd3 [Hno3 [Hi3 [Hn3 [Hown3 Hk3]]]]]]]]].
+  - left. reflexivity.
+  - rewrite Hn2. exact Hp1.
   - rewrite Hs2. reflexivity.
   - reflexivity.
   - reflexivity.
+  - reflexivity.
   - exact Hs0.
-  - rewrite Hn2. unfold st1, i. cbn. lia.
-  - exists (OList i os), st3. cbn [app] in Hs3.
+  - exact Hown2.
+  - cbn [app] in Hs3, Hno3, Hown3.
+    assert (Hnol : noccur_all pend (OList i os) = true).
+    { apply (noccur_fresh_list pend i os (next st) Hp (le_n _)).
+      apply (forallb_imp _ (noccur_all (i :: pend))); [|exact Hno3]. apply Forall_forall. intros x _. apply noccur_all_cons. }
+    exists (OList i os), st3.
     split; [rewrite (run_step_next w st EMPTY_LIST st1 r eq_refl), Hr2; exact Hr3|].
     split; [exact Hs3|]. split; [rewrite decode_list_eq, (all_some_map_decode _ _ Hd3); reflexivity|].
-    split; [reflexivity|]. split; [intro; discriminate|]. split; [exact Hi3|].
-    rewrite Hn2 in Hn3. unfold st1 in Hn3. cbn in Hn3. lia.
+    split; [reflexivity|]. split; [intro; discriminate|]. split; [exact Hnol|].
+    split; [|split].
+    + apply (inv_record cs2 pend st3 pidx (PList xs) (OList i os)); [apply (inv_weaken _ i); exact Hi3 | exact Hown3 | | | exact Hnol].
+      * rewrite decode_list_eq, (all_some_map_decode _ _ Hd3). reflexivity.
+      * intro; discriminate.
+    + rewrite Hn2 in Hn3. unfold st1 in Hn3. cbn in Hn3. lia.
+    + apply (old_kept_memo_ext i st st2 st3); [split; assumption | unfold i; lia | exact (memo_ext_trans _ _ _ He1 He2) | exact Hk3].
+Qed.
+
+Lemma noccur_fresh_dict : forall pend i (ps : list (obj * obj)) n, Forall (fun j => j < n) pend -> n <= i ->
+  forallb (noccur_all pend) (map snd ps) = true ->
+  (forall p, In p ps -> noids (fst p) = true) -> noccur_all pend (ODict i ps) = true.
+Proof.
+  intros pend i ps n Hp Hle H Hk. unfold noccur_all. apply forallb_forall. intros j Hj. cbn [occurs].
+  rewrite Forall_forall in Hp. specialize (Hp j Hj).
+  replace (Nat.eqb j i) with false by (symmetry; apply Nat.eqb_neq; lia). cbn [orb]. apply negb_true_iff.
+  induction ps as [|[k v] r IH]; [reflexivity|]. cbn [map snd forallb] in H. apply andb_true_iff in H. destruct H as [H1 H2].
+  cbn [existsb fst snd]. rewrite (noccur_all_in _ _ _ H1 Hj), orb_false_r.
+  rewrite (below_noccur 0 j (Nat.le_0_l j) k (noids_below 0 k (Hk (k, v) (or_introl eq_refl)))). cbn.
+  apply IH; [exact H2|]. intros p Hin. apply Hk. right. exact Hin.
 Qed.
 
 Lemma dict_case : forall w (kvs : list (atom * pv)), Forall (fun kv => member_sound w chk (snd kv)) kvs ->
   nodup_atoms (map fst kvs) = true ->
-  forall cs prog cs' rest st, chk (PDict kvs) cs prog = Some (cs', rest) -> inv cs st ->
-  vres w (PDict kvs) cs' st prog rest.
+  forall cs prog cs' rest pend st, chk (PDict kvs) cs prog = Some (cs', rest) -> inv cs pend st ->
+  Forall (fun j => j < next st) pend -> vres w (PDict kvs) cs' pend st prog rest.
 Proof.
-  intros w kvs HF Hnd cs prog cs' rest st H Hinv. destruct prog as [|p r]; [discriminate|]. cbn [chk] in H.
+  intros w kvs HF Hnd cs prog cs' rest pend st H Hinv Hp. destruct prog as [|p r]; [discriminate|]. cbn [chk] in H.
   destruct (match get_index p with Some i => chk_get cs (PDict kvs) i | None => false end) eqn:Eg.
   { inversion H; subst. apply get_case; assumption. }
   destruct p; try discriminate.
-  destruct (chk_put cs (PDict kvs) r) as [[cs1 p1]|] eqn:Ep; [|discriminate].
-  set (i := next st).
-  set (st1 := fresh (push (ODict i []) st)).
-  assert (Hi1 : inv cs st1).
-  { unfold st1, fresh, push, set_stack. cbn [stack memo next ecache trace]. apply inv_stack; [exact Hinv | lia|].
-    cbn [forallb ids_below]. rewrite andb_true_r. destruct Hinv as [[Hs _] _].
-    rewrite (ids_below_all_mono (next st) (S (next st)) _ (Nat.le_succ_diag_r _) Hs), andb_true_r. apply Nat.ltb_lt. unfold i. lia. }
-  destruct (put_sound w cs (PDict kvs) r cs1 p1 st1 (ODict i []) (stack st) Ep Hi1 eq_refl eq_refl)
-    as [st2 [Hr2 [Hs2 [Hn2 Hi2]]]]; [intro; discriminate|].
-  destruct Hinv as [[Hs0 Hm0] Hrest0].
-  destruct (kitems_sound w chk kvs HF false cs1 p1 cs' rest st2 i [] [] (stack st) [] [] H Hi2)
-    as [ps [st3 [Hr3 [Hs3 [Hd3 [Hi3 Hn3]]]]]].
+  destruct (chk_put_pending cs r) as [[[cs1 p1] pidx]|] eqn:Ep; [|discriminate].
+  destruct (kitems_gen chk kvs false cs1 p1) as [[cs2 p2]|] eqn:Ei; [|discriminate]. inversion H; subst cs' rest. clear H.
+  set (i := next st). set (st1 := fresh (push (ODict i []) st)).
+  destruct (enter_container cs pend st (ODict i []) Hinv Hp) as [Hi1 [Hp1 He1]].
+  { cbn [ids_below forallb]. rewrite andb_true_r. apply Nat.ltb_lt. unfold i. lia. }
+  fold i st1 in Hi1, Hp1, He1.
+  destruct (put_pending_sound w cs (i :: pend) r cs1 p1 pidx st1 (ODict i []) (stack st) Ep Hi1 eq_refl eq_refl)
+    as [st2 [Hr2 [Hs2 [Hn2 [Hi2 [He2 Hown2]]]]]].
+  pose proof Hinv as [[Hs0 Hm0] _].
+  destruct (kitems_sound w chk kvs HF false cs1 (i :: pend) p1 cs2 p2 st2 i [] [] (stack st) [] [] pidx Ei Hi2)
+    as [ps [st3 [Hr3 [Hs3 [Hd3 [Hno3 [Hi3 [Hn3 [Hown3 Hk3]]]]]]]]].
+  - left. reflexivity.
+  - rewrite Hn2. exact Hp1.
   - rewrite Hs2. reflexivity.
   - reflexivity.
   - reflexivity.
   - reflexivity.
   - reflexivity.
   - exact Hnd.
+  - reflexivity.
   - exact Hs0.
-  - rewrite Hn2. unfold st1, i. cbn. lia.
-  - exists (ODict i ps), st3. cbn [app] in Hs3. destruct (kvs_keys _ _ Hd3) as [_ Hdec].
+  - exact Hown2.
+  - cbn [app] in Hs3, Hno3, Hown3. destruct (kvs_keys _ _ Hd3) as [Hkeys Hdec].
+    assert (Hdd : decode (ODict i ps) = Some (PDict kvs)) by (rewrite decode_dict_eq, Hdec; reflexivity).
+    assert (Hnol : noccur_all pend (ODict i ps) = true).
+    { apply (noccur_fresh_dict pend i ps (next st) Hp (le_n _)).
+      - apply (forallb_imp _ (noccur_all (i :: pend))); [|exact Hno3]. apply Forall_forall. intros x _. apply noccur_all_cons.
+      - intros q Hin. assert (In (fst q) (map fst ps)) by (apply in_map; exact Hin). rewrite Hkeys in H.
+        apply in_map_iff in H. destruct H as [a [Ha _]]. rewrite <- Ha. apply noids_atom. }
+    exists (ODict i ps), st3.
     split; [rewrite (run_step_next w st EMPTY_DICT st1 r eq_refl), Hr2; exact Hr3|].
-    split; [exact Hs3|]. split; [rewrite decode_dict_eq, Hdec; reflexivity|].
-    split; [reflexivity|]. split; [intro; discriminate|]. split; [exact Hi3|].
-    rewrite Hn2 in Hn3. unfold st1 in Hn3. cbn in Hn3. lia.
+    split; [exact Hs3|]. split; [exact Hdd|].
+    split; [reflexivity|]. split; [intro; discriminate|]. split; [exact Hnol|].
+    split; [|split].
+    + apply (inv_record cs2 pend st3 pidx (PDict kvs) (ODict i ps));
+        [apply (inv_weaken _ i); exact Hi3 | exact Hown3 | exact Hdd | intro; discriminate | exact Hnol].
+    + rewrite Hn2 in Hn3. unfold st1 in Hn3. cbn in Hn3. lia.
+    + apply (old_kept_memo_ext i st st2 st3); [split; assumption | unfold i; lia | exact (memo_ext_trans _ _ _ He1 He2) | exact Hk3].
+Qed.
+
+Lemma noccur_fresh_set : forall pend i xs n, Forall (fun j => j < n) pend -> n <= i ->
+  noccur_all pend (OSet i (map obj_of_atom xs)) = true.
+Proof.
+  intros pend i xs n Hp Hle. unfold noccur_all. apply forallb_forall. intros j Hj. cbn [occurs].
+  rewrite Forall_forall in Hp. specialize (Hp j Hj).
+  replace (Nat.eqb j i) with false by (symmetry; apply Nat.eqb_neq; lia). cbn [orb]. apply negb_true_iff.
+  induction xs as [|a r IH]; [reflexivity|]. cbn [map existsb].
+  rewrite (below_noccur 0 j (Nat.le_0_l j) _ (ids_below_atom 0 a)). exact IH.
 Qed.
 
 Lemma set_case : forall w xs, nodup_atoms xs = true ->
-  forall cs prog cs' rest st, chk (PSet xs) cs prog = Some (cs', rest) -> inv cs st ->
-  vres w (PSet xs) cs' st prog rest.
+  forall cs prog cs' rest pend st, chk (PSet xs) cs prog = Some (cs', rest) -> inv cs pend st ->
+  Forall (fun j => j < next st) pend -> vres w (PSet xs) cs' pend st prog rest.
 Proof.
-  intros w xs Hnd cs prog cs' rest st H Hinv. destruct prog as [|p r]; [discriminate|]. cbn [chk] in H.
+  intros w xs Hnd cs prog cs' rest pend st H Hinv Hp. destruct prog as [|p r]; [discriminate|]. cbn [chk] in H.
   destruct (match get_index p with Some i => chk_get cs (PSet xs) i | None => false end) eqn:Eg.
   { inversion H; subst. apply get_case; assumption. }
   destruct p; try discriminate.
-  destruct (chk_put cs (PSet xs) r) as [[cs1 p1]|] eqn:Ep; [|discriminate].
-  set (i := next st).
-  set (st1 := fresh (push (OSet i []) st)).
-  assert (Hi1 : inv cs st1).
-  { unfold st1, fresh, push, set_stack. cbn [stack memo next ecache trace]. apply inv_stack; [exact Hinv | lia|].
-    cbn [forallb ids_below]. rewrite andb_true_r. destruct Hinv as [[Hs _] _].
-    rewrite (ids_below_all_mono (next st) (S (next st)) _ (Nat.le_succ_diag_r _) Hs), andb_true_r. apply Nat.ltb_lt. unfold i. lia. }
-  destruct (put_sound w cs (PSet xs) r cs1 p1 st1 (OSet i []) (stack st) Ep Hi1 eq_refl eq_refl)
-    as [st2 [Hr2 [Hs2 [Hn2 Hi2]]]]; [intro; discriminate|].
-  destruct Hinv as [[Hs0 Hm0] Hrest0].
-  destruct (set_items_sound w xs false cs1 p1 cs' rest st2 i [] [] (stack st) H Hi2) as [st3 [Hr3 [Hs3 [Hn3 Hi3]]]].
+  destruct (chk_put_pending cs r) as [[[cs1 p1] pidx]|] eqn:Ep; [|discriminate].
+  destruct (chk_set_items xs false cs1 p1) as [[cs2 p2]|] eqn:Ei; [|discriminate]. inversion H; subst cs' rest. clear H.
+  set (i := next st). set (st1 := fresh (push (OSet i []) st)).
+  destruct (enter_container cs pend st (OSet i []) Hinv Hp) as [Hi1 [Hp1 He1]].
+  { cbn [ids_below forallb]. rewrite andb_true_r. apply Nat.ltb_lt. unfold i. lia. }
+  fold i st1 in Hi1, Hp1, He1.
+  destruct (put_pending_sound w cs (i :: pend) r cs1 p1 pidx st1 (OSet i []) (stack st) Ep Hi1 eq_refl eq_refl)
+    as [st2 [Hr2 [Hs2 [Hn2 [Hi2 [He2 Hown2]]]]]].
+  pose proof Hinv as [[Hs0 Hm0] _].
+  destruct (set_items_sound w xs false cs1 (i :: pend) p1 cs2 p2 st2 i [] [] (stack st) pidx Ei Hi2)
+    as [st3 [Hr3 [Hs3 [Hn3 [Hi3 [Hown3 Hk3]]]]]].
+  - left. reflexivity.
   - rewrite Hs2. reflexivity.
   - reflexivity.
   - exact Hnd.
   - exact Hs0.
   - rewrite Hn2. unfold st1, i. cbn. lia.
-  - exists (OSet i (map obj_of_atom xs)), st3. cbn [app] in Hs3.
+  - exact Hown2.
+  - cbn [app] in Hs3, Hown3.
+    assert (Hnol : noccur_all pend (OSet i (map obj_of_atom xs)) = true) by (apply (noccur_fresh_set pend i xs (next st) Hp (le_n _))).
+    exists (OSet i (map obj_of_atom xs)), st3.
     split; [rewrite (run_step_next w st EMPTY_SET st1 r eq_refl), Hr2; exact Hr3|].
     split; [exact Hs3|]. split; [apply decode_set_atoms|].
-    split; [reflexivity|]. split; [intro; discriminate|]. split; [exact Hi3|].
-    rewrite Hn3, Hn2. unfold st1. cbn. lia.
+    split; [reflexivity|]. split; [intro; discriminate|]. split; [exact Hnol|].
+    split; [|split].
+    + apply (inv_record cs2 pend st3 pidx (PSet xs) (OSet i (map obj_of_atom xs)));
+        [apply (inv_weaken _ i); exact Hi3 | exact Hown3 | apply decode_set_atoms | intro; discriminate | exact Hnol].
+    + rewrite Hn3, Hn2. unfold st1. cbn. lia.
+    + apply (old_kept_memo_ext i st st2 st3); [split; assumption | unfold i; lia | exact (memo_ext_trans _ _ _ He1 He2) | exact Hk3].
 Qed.
 
 Lemma frozen_case : forall w xs, nodup_atoms xs = true ->
-  forall cs prog cs' rest st, chk (PFrozen xs) cs prog = Some (cs', rest) -> inv cs st ->
-  vres w (PFrozen xs) cs' st prog rest.
+  forall cs prog cs' rest pend st, chk (PFrozen xs) cs prog = Some (cs', rest) -> inv cs pend st ->
+  vres w (PFrozen xs) cs' pend st prog rest.
 Proof.
-  intros w xs Hnd cs prog cs' rest st H Hinv. destruct prog as [|p r]; [discriminate|]. cbn [chk] in H.
+  intros w xs Hnd cs prog cs' rest pend st H Hinv. destruct prog as [|p r]; [discriminate|]. cbn [chk] in H.
   destruct (match get_index p with Some i => chk_get cs (PFrozen xs) i | None => false end) eqn:Eg.
   { inversion H; subst. apply get_case; assumption. }
   destruct p; try discriminate.
   destruct (chk_atoms xs cs r) as [[cs1 pp]|] eqn:Ea; [|discriminate].
   destruct pp as [|q p1]; [discriminate|]. destruct q; try discriminate.
-  assert (Hi0 : inv cs (push OMark st)) by (apply inv_push; [exact Hinv | reflexivity]).
-  destruct (atoms_sound w xs cs r cs1 _ (push OMark st) Ea Hi0) as [st1 [Hr1 [Hs1 [Hn1 Hi1]]]].
+  assert (Hi0 : inv cs pend (push OMark st)) by (apply inv_push; [exact Hinv | reflexivity]).
+  destruct (atoms_sound w xs cs pend r cs1 _ (push OMark st) Ea Hi0) as [st1 [Hr1 [Hs1 [Hn1 [Hi1 He1]]]]].
   set (o := OFrozen (map obj_of_atom xs)).
   set (st2 := set_stack st1 (o :: stack st)).
-  apply (put_after w (PFrozen xs) (MARK :: r) p1 cs1 cs' rest st st2 o); try reflexivity; try assumption.
+  apply (put_after w (PFrozen xs) pend (MARK :: r) p1 cs1 cs' rest st st2 o);
+    [ | reflexivity | | | | exact H | apply decode_frozen_atoms | reflexivity | intro; reflexivity | ].
   - rewrite (run_step_next w st MARK (push OMark st) r eq_refl), Hr1. apply run_step_next.
     cbn [step]. unfold with_mark. rewrite Hs1. cbn [push set_stack stack]. rewrite (to_mark_rev _ _ (no_mark_atoms xs)).
     pose proof (set_add_all_atoms xs [] Hnd) as E. cbn [map app] in E. rewrite E. reflexivity.
@@ -1132,57 +1539,70 @@ Proof.
   - apply inv_set_stack_sub; [exact Hi1|]. destruct Hi1 as [[Hst _] _]. rewrite Hs1 in Hst. cbn [push set_stack stack] in Hst.
     apply forallb_app_split in Hst. destruct Hst as [_ Hst]. cbn in Hst.
     cbn [forallb ids_below o]. rewrite ids_below_atoms. exact Hst.
-  - apply decode_frozen_atoms.
+  - intros idx x Hg. unfold st2. cbn [set_stack memo]. apply He1. exact Hg.
+  - apply noccur_all_noids. unfold o. cbn [noids]. apply noids_atoms.
 Qed.
 
-Lemma floatbits_case : forall w b cs prog cs' rest st,
-  chk (PFloatBits b) cs prog = Some (cs', rest) -> inv cs st -> vres w (PFloatBits b) cs' st prog rest.
+Lemma floatbits_case : forall w b cs prog cs' rest pend st,
+  chk (PFloatBits b) cs prog = Some (cs', rest) -> inv cs pend st -> vres w (PFloatBits b) cs' pend st prog rest.
 Proof.
-  intros w b cs prog cs' rest st H Hinv. destruct prog as [|p r]; [discriminate|]. cbn [chk] in H.
+  intros w b cs prog cs' rest pend st H Hinv. destruct prog as [|p r]; [discriminate|]. cbn [chk] in H.
   destruct (match get_index p with Some i => chk_get cs (PFloatBits b) i | None => false end) eqn:Eg.
   { inversion H; subst. apply get_case; assumption. }
   destruct p; try discriminate; destruct f; try discriminate;
     (destruct (Z.eqb bits b) eqn:Eb; [|discriminate]; apply Z.eqb_eq in Eb; subst bits;
-     apply (pushed_then_put w (PFloatBits b) cs _ r cs' rest st (push (OFloat (FBits b)) st) (OFloat (FBits b)));
-     try reflexivity; try assumption).
+     apply (pushed_then_put w (PFloatBits b) cs pend _ r cs' rest st (push (OFloat (FBits b)) st) (OFloat (FBits b)));
+     [reflexivity | reflexivity | cbn; lia | apply inv_push; [exact Hinv | reflexivity] | apply memo_ext_same; reflexivity
+     | exact H | reflexivity | reflexivity | intro; reflexivity | apply noccur_all_noids; reflexivity]).
 Qed.
 
-Lemma nonetype_case : forall w cs prog cs' rest st,
-  chk PNoneType cs prog = Some (cs', rest) -> inv cs st -> vres w PNoneType cs' st prog rest.
+Lemma nonetype_case : forall w cs prog cs' rest pend st,
+  chk PNoneType cs prog = Some (cs', rest) -> inv cs pend st -> vres w PNoneType cs' pend st prog rest.
 Proof.
-  intros w cs prog cs' rest st H Hinv. destruct prog as [|p r]; [discriminate|]. cbn [chk] in H.
+  intros w cs prog cs' rest pend st H Hinv. destruct prog as [|p r]; [discriminate|]. cbn [chk] in H.
   destruct (match get_index p with Some i => chk_get cs PNoneType i | None => false end) eqn:Eg.
   { inversion H; subst. apply get_case; assumption. }
   assert (Hdef : match chk_atom (AStr NONE_TYPE_PID) cs (p :: r) with
                  | Some (cs1, BINPERSID :: p1) => Some (cs1, p1)
                  | _ => None
-                 end = Some (cs', rest) -> vres w PNoneType cs' st (p :: r) rest).
+                 end = Some (cs', rest) -> vres w PNoneType cs' pend st (p :: r) rest).
   { intro H0. destruct (chk_atom (AStr NONE_TYPE_PID) cs (p :: r)) as [[cs1 pp]|] eqn:Ea; [|discriminate].
     destruct pp as [|q p1]; [discriminate|]. destruct q; try discriminate. inversion H0; subst cs1 p1.
-    destruct (atom_sound w _ cs (p :: r) cs' _ st Ea Hinv) as [st1 [Hr1 [Hs1 [Hn1 Hi1]]]]. cbn [obj_of_atom] in Hs1.
+    destruct (atom_sound w _ cs pend (p :: r) cs' _ st Ea Hinv) as [st1 [Hr1 [Hs1 [Hn1 [Hi1 He1]]]]]. cbn [obj_of_atom] in Hs1.
     exists ONoneType, (set_stack (emit (EPersist (OStr NONE_TYPE_PID)) st1) (ONoneType :: stack st)).
     split; [rewrite Hr1; apply run_step_next; cbn [step]; rewrite Hs1; cbn [pop1 is_mark persistent_load];
             rewrite pystr_eqb_refl; reflexivity|].
     split; [reflexivity|]. split; [reflexivity|]. split; [reflexivity|]. split; [reflexivity|].
-    split; [|cbn; lia].
+    split; [apply noccur_all_noids; reflexivity|].
+    split; [|split; [cbn; lia | intros idx x Hg; cbn; apply He1; exact Hg]].
     apply inv_set_stack_sub; [apply inv_emit; exact Hi1|]. destruct Hi1 as [[Hst _] _]. rewrite Hs1 in Hst. cbn in Hst. exact Hst. }
   destruct p; try (apply Hdef; exact H).
-  (* PERSID *)
   destruct (pystr_eqb s NONE_TYPE_PID) eqn:Es; [|discriminate]. inversion H; subst cs' rest.
   apply pystr_eqb_eq in Es. subst s.
   exists ONoneType, (push ONoneType (emit (EPersist (OStr NONE_TYPE_PID)) st)).
   split; [apply run_step_next; cbn [step persistent_load]; rewrite pystr_eqb_refl; reflexivity|].
   split; [reflexivity|]. split; [reflexivity|]. split; [reflexivity|]. split; [reflexivity|].
-  split; [apply inv_push; [apply inv_emit; exact Hinv | reflexivity] | cbn; lia].
+  split; [apply noccur_all_noids; reflexivity|].
+  split; [apply inv_push; [apply inv_emit; exact Hinv | reflexivity] | split; [cbn; lia | apply memo_ext_same; reflexivity]].
+Qed.
+
+Lemma noccur_fresh_inst : forall pend i k f a sts n, Forall (fun j => j < n) pend -> n <= i ->
+  noccur_all pend f = true -> noccur_all pend a = true -> forallb (noccur_all pend) sts = true ->
+  noccur_all pend (OInst i k f a sts) = true.
+Proof.
+  intros pend i k f a sts n Hp Hle Hf Ha Hs. unfold noccur_all. apply forallb_forall. intros j Hj. cbn [occurs].
+  rewrite Forall_forall in Hp. specialize (Hp j Hj).
+  replace (Nat.eqb j i) with false by (symmetry; apply Nat.eqb_neq; lia).
+  rewrite (noccur_all_in _ _ _ Hf Hj), (noccur_all_in _ _ _ Ha Hj), (noccur_list pend sts Hs j Hj). reflexivity.
 Qed.
 
 Lemma opcode_case : forall w tag i1 i2 j1 j2 old new,
   calls_ok w -> find_class w HELPER OPCODE = FCResolved GType ->
   member_sound w chk old -> member_sound w chk new ->
-  forall cs prog cs' rest st, chk (POpcode tag i1 i2 j1 j2 old new) cs prog = Some (cs', rest) -> inv cs st ->
-  vres w (POpcode tag i1 i2 j1 j2 old new) cs' st prog rest.
+  forall cs prog cs' rest pend st, chk (POpcode tag i1 i2 j1 j2 old new) cs prog = Some (cs', rest) -> inv cs pend st ->
+  Forall (fun j => j < next st) pend -> vres w (POpcode tag i1 i2 j1 j2 old new) cs' pend st prog rest.
 Proof.
-  intros w tag i1 i2 j1 j2 old new Hco Hfc Hold Hnew cs prog cs' rest st H Hinv.
+  intros w tag i1 i2 j1 j2 old new Hco Hfc Hold Hnew cs prog cs' rest pend st H Hinv Hp.
   destruct prog as [|p r]; [discriminate|]. cbn [chk] in H.
   destruct (match get_index p with Some i => chk_get cs (POpcode tag i1 i2 j1 j2 old new) i | None => false end) eqn:Eg.
   { inversion H; subst. apply get_case; assumption. }
@@ -1195,30 +1615,36 @@ Proof.
   destruct (chk_put cs4 (opcode_args tag i1 i2 j1 j2 old new) p4) as [[cs5 pp5]|] eqn:Ep; [|discriminate].
   destruct pp5 as [|q p5]; [discriminate|]. destruct q; try discriminate.
   set (cls := OGlobal HELPER OPCODE GType).
-  destruct (type_sound w HELPER OPCODE cs (p :: r) cs1 _ st Et Hinv Hfc) as [st1 [Hr1 [Hs1 [Hn1 Hi1]]]].
-  assert (Hi1' : inv cs1 (push OMark st1)) by (apply inv_push; [exact Hi1 | reflexivity]).
-  destruct (atoms_sound w _ cs1 p1 cs2 p2 (push OMark st1) Ea Hi1') as [st2 [Hr2 [Hs2 [Hn2 Hi2]]]].
-  destruct (Hold cs2 p2 cs3 p3 Eo st2 Hi2) as [o1 [st3 [Hr3 [Hs3 [Hd3 [Hm3 [Hc3 [Hi3 Hn3]]]]]]]].
-  destruct (Hnew cs3 p3 cs4 _ En st3 Hi3) as [o2 [st4 [Hr4 [Hs4 [Hd4 [Hm4 [Hc4 [Hi4 Hn4]]]]]]]].
+  destruct (type_sound w HELPER OPCODE cs pend (p :: r) cs1 _ st Et Hinv Hfc) as [st1 [Hr1 [Hs1 [Hn1 [Hi1 He1]]]]].
+  assert (Hi1' : inv cs1 pend (push OMark st1)) by (apply inv_push; [exact Hi1 | reflexivity]).
+  destruct (atoms_sound w _ cs1 pend p1 cs2 p2 (push OMark st1) Ea Hi1') as [st2 [Hr2 [Hs2 [Hn2 [Hi2 He2]]]]].
+  assert (Hp2 : Forall (fun j => j < next st2) pend).
+  { rewrite Hn2. cbn [push set_stack next]. rewrite Hn1. exact Hp. }
+  destruct (Hold cs2 p2 cs3 p3 Eo pend st2 Hi2 Hp2) as [o1 [st3 [Hr3 [Hs3 [Hd3 [Hm3 [Hc3 [Hno3 [Hi3 [Hn3 He3]]]]]]]]]].
+  assert (Hp3 : Forall (fun j => j < next st3) pend) by (apply (pend_mono _ _ _ Hn3 Hp2)).
+  destruct (Hnew cs3 p3 cs4 _ En pend st3 Hi3 Hp3) as [o2 [st4 [Hr4 [Hs4 [Hd4 [Hm4 [Hc4 [Hno4 [Hi4 [Hn4 He4]]]]]]]]]].
   set (args := OTuple [OStr tag; OInt i1; OInt i2; OInt j1; OInt j2; o1; o2]).
-  (* TUPLE *)
   assert (Hs4' : stack st4 = (rev [OStr tag; OInt i1; OInt i2; OInt j1; OInt j2; o1; o2] ++ OMark :: cls :: stack st)%list).
   { rewrite Hs4, Hs3, Hs2. cbn [push set_stack stack map obj_of_atom rev app]. rewrite Hs1. reflexivity. }
   set (st5 := set_stack st4 (args :: cls :: stack st)).
   assert (H5 : step w st4 TUPLE = SNext st5).
   { cbn [step]. unfold with_mark. rewrite Hs4', to_mark_rev; [reflexivity|]. cbn. rewrite Hm3, Hm4. reflexivity. }
-  assert (Hi5 : inv cs4 st5).
+  assert (Hi5 : inv cs4 pend st5).
   { apply inv_set_stack_sub; [exact Hi4|]. destruct Hi4 as [[Hst _] _]. rewrite Hs4' in Hst. cbn in Hst.
     repeat (apply andb_true_iff in Hst; destruct Hst as [? Hst]).
     cbn. repeat match goal with E : ids_below _ _ = true |- _ => rewrite E; clear E end. exact Hst. }
   assert (Hd5 : decode args = Some (opcode_args tag i1 i2 j1 j2 old new)).
   { unfold args, opcode_args. rewrite decode_tuple_eq. cbn [map all_some decode atom_of_obj option_map]. rewrite Hd3, Hd4. reflexivity. }
-  destruct (put_sound w cs4 (opcode_args tag i1 i2 j1 j2 old new) p4 cs5 _ st5 args (cls :: stack st) Ep Hi5 eq_refl eq_refl)
-    as [st6 [Hr6 [Hs6 [Hn6 Hi6]]]].
+  assert (Hnoa : noccur_all pend args = true).
+  { unfold args. apply noccur_tuple. cbn [forallb]. rewrite Hno3, Hno4.
+    rewrite (noccur_all_noids pend (OStr tag) eq_refl), (noccur_all_noids pend (OInt i1) eq_refl),
+      (noccur_all_noids pend (OInt i2) eq_refl), (noccur_all_noids pend (OInt j1) eq_refl),
+      (noccur_all_noids pend (OInt j2) eq_refl). reflexivity. }
+  destruct (put_sound w cs4 pend (opcode_args tag i1 i2 j1 j2 old new) p4 cs5 _ st5 args (cls :: stack st) Ep Hi5 eq_refl eq_refl Hd5)
+    as [st6 [Hr6 [Hs6 [Hn6 [Hi6 He6]]]]]; [|exact Hnoa|].
   { intro Hf. unfold opcode_args in Hf. cbn [idfree forallb andb] in Hf.
     apply andb_true_iff in Hf. destruct Hf as [F1 Hf]. apply andb_true_iff in Hf. destruct Hf as [F2 _].
     unfold args, opcode_args. cbn [canon_obj map obj_of_atom]. rewrite (Hc3 F1), (Hc4 F2). reflexivity. }
-  (* NEWOBJ *)
   set (inst := OInst (next st6) KNewobj cls args []).
   set (st7 := fresh (set_stack (emit (ECall KNewobj cls args) (set_stack st6 (stack st))) (inst :: stack st))).
   assert (H7 : step w st6 NEWOBJ = SNext st7).
@@ -1226,74 +1652,92 @@ Proof.
     unfold do_call. rewrite (co_opcode w Hco). reflexivity. }
   assert (Hn7 : next st <= next st6).
   { rewrite Hn6. unfold st5. cbn [set_stack next]. cbn [push set_stack next] in Hn2. lia. }
-  assert (Hi7 : inv cs5 st7).
+  assert (Hi7 : inv cs5 pend st7).
   { unfold st7, fresh, set_stack, emit. cbn [stack memo next ecache trace]. apply inv_stack; [exact Hi6 | lia|].
     destruct Hi6 as [[Hst _] _]. rewrite Hs6 in Hst. unfold st5 in Hst. cbn [set_stack stack forallb] in Hst.
     apply andb_true_iff in Hst. destruct Hst as [Ha Hst]. apply andb_true_iff in Hst. destruct Hst as [_ Hst].
     cbn [forallb ids_below inst cls]. rewrite (ids_below_mono _ _ (Nat.le_succ_diag_r _) _ Ha).
     rewrite (ids_below_all_mono _ _ _ (Nat.le_succ_diag_r _) Hst). rewrite !andb_true_r. apply Nat.ltb_lt. lia. }
-  apply (put_after w _ (p :: r) p5 cs5 cs' rest st st7 inst); try assumption.
+  assert (He7 : memo_ext st st7).
+  { apply (memo_ext_trans _ _ _ He1). apply (memo_ext_trans _ (push OMark st1)); [apply memo_ext_same; reflexivity|].
+    apply (memo_ext_trans _ _ _ He2). apply (memo_ext_trans _ _ _ He3). apply (memo_ext_trans _ _ _ He4).
+    apply (memo_ext_trans _ st5); [apply memo_ext_same; reflexivity|]. apply (memo_ext_trans _ _ _ He6).
+    apply memo_ext_same. reflexivity. }
+  apply (put_after w _ pend (p :: r) p5 cs5 cs' rest st st7 inst);
+    [ | reflexivity | | exact Hi7 | exact He7 | exact H | | reflexivity | intro; discriminate | ].
   - rewrite Hr1, (run_step_next w st1 MARK (push OMark st1) p1 eq_refl), Hr2, Hr3, Hr4,
       (run_step_next w st4 TUPLE st5 p4 H5), Hr6. apply run_step_next. exact H7.
-  - reflexivity.
   - unfold st7. cbn [fresh set_stack emit next]. lia.
   - unfold inst, cls, args. cbn [decode]. rewrite !pystr_eqb_refl. cbn [andb]. rewrite Hd3, Hd4. reflexivity.
-  - reflexivity.
-  - intro; discriminate.
+  - apply (noccur_fresh_inst pend _ _ _ _ _ (next st) Hp Hn7); [apply noccur_all_noids; reflexivity | exact Hnoa | reflexivity].
 Qed.
 
 Lemma setordered_case : forall w xs, calls_ok w -> find_class w HELPER SETORDERED = FCResolved GType ->
   Forall (member_sound w chk) xs ->
-  forall cs prog cs' rest st, chk (PSetOrdered xs) cs prog = Some (cs', rest) -> inv cs st ->
-  vres w (PSetOrdered xs) cs' st prog rest.
+  forall cs prog cs' rest pend st, chk (PSetOrdered xs) cs prog = Some (cs', rest) -> inv cs pend st ->
+  Forall (fun j => j < next st) pend -> vres w (PSetOrdered xs) cs' pend st prog rest.
 Proof.
-  intros w xs Hco Hfc HF cs prog cs' rest st H Hinv. destruct prog as [|p r]; [discriminate|]. cbn [chk] in H.
+  intros w xs Hco Hfc HF cs prog cs' rest pend st H Hinv Hp. destruct prog as [|p r]; [discriminate|]. cbn [chk] in H.
   destruct (match get_index p with Some i => chk_get cs (PSetOrdered xs) i | None => false end) eqn:Eg.
   { inversion H; subst. apply get_case; assumption. }
   destruct (chk_type HELPER SETORDERED cs (p :: r)) as [[cs1 pp]|] eqn:Et; [|discriminate].
   destruct pp as [|q pp]; [discriminate|]. destruct q; try discriminate.
   destruct pp as [|q p1]; [discriminate|]. destruct q; try discriminate.
-  destruct (chk_put cs1 (PSetOrdered xs) p1) as [[cs2 pp2]|] eqn:Ep1; [|discriminate].
+  destruct (chk_put_pending cs1 p1) as [[[cs2 pp2] iidx]|] eqn:Ep1; [|discriminate].
   destruct pp2 as [|q p2]; [discriminate|]. destruct q; try discriminate.
-  destruct (chk_put cs2 (PList xs) p2) as [[cs3 p3]|] eqn:Ep2; [|discriminate].
+  destruct (chk_put_pending cs2 p2) as [[[cs3 p3] lidx]|] eqn:Ep2; [|discriminate].
   destruct (items_gen chk xs false cs3 p3) as [[cs4 pp4]|] eqn:Ei; [|discriminate].
-  destruct pp4 as [|q p4]; [discriminate|]. destruct q; try discriminate. inversion H; subst cs4 p4. clear H.
+  destruct pp4 as [|q p4]; [discriminate|]. destruct q; try discriminate. inversion H; subst cs' rest. clear H.
   set (cls := OGlobal HELPER SETORDERED GType).
-  destruct (type_sound w HELPER SETORDERED cs (p :: r) cs1 _ st Et Hinv Hfc) as [st1 [Hr1 [Hs1 [Hn1 Hi1]]]].
-  (* EMPTY_TUPLE; NEWOBJ *)
+  destruct (type_sound w HELPER SETORDERED cs pend (p :: r) cs1 _ st Et Hinv Hfc) as [st1 [Hr1 [Hs1 [Hn1 [Hi1 He1]]]]].
+  pose proof Hinv as [[Hs0 Hm0] _].
+  (* EMPTY_TUPLE; NEWOBJ: the instance, its identity pending until BUILD *)
   set (j := next st1).
   set (inst0 := OInst j KNewobj cls (OTuple []) []).
   set (st2 := fresh (set_stack (emit (ECall KNewobj cls (OTuple [])) (set_stack (push (OTuple []) st1) (stack st))) (inst0 :: stack st))).
   assert (H2 : step w (push (OTuple []) st1) NEWOBJ = SNext st2).
   { cbn [step push set_stack stack pop1 is_mark]. rewrite Hs1. cbn [pop1 is_mark cls is_type].
     unfold do_call. rewrite (co_setordered w Hco). reflexivity. }
-  destruct Hinv as [[Hs0 Hm0] Hrest0].
-  assert (Hi2 : inv cs1 st2).
-  { unfold st2, fresh, push, emit, set_stack. cbn [stack memo next ecache trace]. apply inv_stack; [exact Hi1 | lia|].
+  assert (Hp1 : Forall (fun k => k < next st1) pend) by (rewrite Hn1; exact Hp).
+  assert (Hi2 : inv cs1 (j :: pend) st2).
+  { pose proof (inv_enter cs1 pend st1 j Hi1 (le_n _)) as Hi1e.
+    unfold st2, fresh, push, emit, set_stack. cbn [stack memo next ecache trace]. apply inv_stack; [exact Hi1e | lia|].
     cbn [forallb ids_below inst0 cls]. rewrite !andb_true_r.
     rewrite (ids_below_all_mono (next st) (S (next st1)) _ ltac:(lia) Hs0), andb_true_r. apply Nat.ltb_lt. unfold j. lia. }
-  destruct (put_sound w cs1 (PSetOrdered xs) p1 cs2 _ st2 inst0 (stack st) Ep1 Hi2 eq_refl eq_refl)
-    as [st3 [Hr3 [Hs3 [Hn3 Hi3]]]]; [intro; discriminate|].
-  (* EMPTY_LIST *)
+  destruct (put_pending_sound w cs1 (j :: pend) p1 cs2 _ iidx st2 inst0 (stack st) Ep1 Hi2 eq_refl eq_refl)
+    as [st3 [Hr3 [Hs3 [Hn3 [Hi3 [He3 Hown3]]]]]].
+  assert (Hn3' : next st3 = S j) by (rewrite Hn3; unfold st2; cbn; reflexivity).
+  (* EMPTY_LIST: the state list, pending as well *)
   set (i := next st3).
   set (st4 := fresh (push (OList i []) st3)).
-  assert (Hi4 : inv cs2 st4).
-  { unfold st4, fresh, push, set_stack. cbn [stack memo next ecache trace]. apply inv_stack; [exact Hi3 | lia|].
-    cbn [forallb ids_below]. rewrite andb_true_r. destruct Hi3 as [[Hs _] _].
-    rewrite (ids_below_all_mono (next st3) (S (next st3)) _ (Nat.le_succ_diag_r _) Hs), andb_true_r. apply Nat.ltb_lt. unfold i. lia. }
-  destruct (put_sound w cs2 (PList xs) p2 cs3 p3 st4 (OList i []) (stack st3) Ep2 Hi4 eq_refl eq_refl)
-    as [st5 [Hr5 [Hs5 [Hn5 Hi5]]]]; [intro; discriminate|].
-  assert (Hn3' : next st3 = S j) by (rewrite Hn3; unfold st2; cbn; reflexivity).
-  destruct (items_sound w chk xs HF false cs3 p3 cs' _ st5 i [] [] (stack st3) Ei Hi5) as [os [st6 [Hr6 [Hs6 [Hd6 [Hi6 Hn6]]]]]].
+  assert (Hp3 : Forall (fun k => k < next st3) (j :: pend)).
+  { rewrite Hn3'. constructor; [lia|]. apply (pend_mono _ (next st1)); [unfold j; lia | exact Hp1]. }
+  destruct (enter_container cs2 (j :: pend) st3 (OList i []) Hi3 Hp3) as [Hi4 [Hp4 He4]].
+  { cbn [ids_below forallb]. rewrite andb_true_r. apply Nat.ltb_lt. unfold i. lia. }
+  fold i st4 in Hi4, Hp4, He4.
+  destruct (put_pending_sound w cs2 (i :: j :: pend) p2 cs3 p3 lidx st4 (OList i []) (stack st3) Ep2 Hi4 eq_refl eq_refl)
+    as [st5 [Hr5 [Hs5 [Hn5 [Hi5 [He5 Hown5]]]]]].
+  destruct (items_sound w chk xs HF false cs3 (i :: j :: pend) p3 cs4 _ st5 i [] [] (stack st3) lidx Ei Hi5)
+    as [os [st6 [Hr6 [Hs6 [Hd6 [Hno6 [Hi6 [Hn6 [Hown6 Hk6]]]]]]]]].
+  - left. reflexivity.
+  - rewrite Hn5. exact Hp4.
   - rewrite Hs5. reflexivity.
   - reflexivity.
   - reflexivity.
+  - reflexivity.
   - destruct Hi3 as [[Hs _] _]. exact Hs.
-  - rewrite Hn5. unfold st4, i. cbn. lia.
-  - cbn [app] in Hs6. rewrite Hs3 in Hs6. unfold st2 in Hs6. cbn [fresh set_stack stack] in Hs6.
-    (* BUILD *)
+  - exact Hown5.
+  - cbn [app] in Hs6, Hno6, Hown6. rewrite Hs3 in Hs6. unfold st2 in Hs6. cbn [fresh set_stack stack] in Hs6.
     set (lst := OList i os).
     set (c := OInst j KNewobj cls (OTuple []) [lst]).
+    assert (Hdl : decode lst = Some (PList xs)) by (unfold lst; rewrite decode_list_eq, (all_some_map_decode _ _ Hd6); reflexivity).
+    assert (Hnol : noccur_all (j :: pend) lst = true).
+    { apply (noccur_fresh_list (j :: pend) i os (next st3) Hp3 (le_n _)).
+      apply (forallb_imp _ (noccur_all (i :: j :: pend))); [|exact Hno6]. apply Forall_forall. intros x _. apply noccur_all_cons. }
+    (* the list is complete: record it; then BUILD mutates the instance *)
+    assert (Hi6r : inv (record cs4 lidx (PList xs)) (j :: pend) st6).
+    { apply (inv_record cs4 (j :: pend) st6 lidx (PList xs) lst);
+        [apply (inv_weaken _ i); exact Hi6 | exact Hown6 | exact Hdl | intro; discriminate | exact Hnol]. }
     set (st7 := mutate j c (emit (EBuild inst0 lst) (set_stack st6 (inst0 :: stack st)))).
     assert (H7 : step w st6 BUILD = SNext st7).
     { cbn [step]. rewrite Hs6. unfold lst, inst0, cls. cbn [pop1 is_mark]. rewrite (co_build w Hco). reflexivity. }
@@ -1301,63 +1745,82 @@ Proof.
     { destruct Hi6 as [[Hst _] _]. rewrite Hs6 in Hst. exact Hst. }
     cbn [forallb] in Hst6. apply andb_true_iff in Hst6. destruct Hst6 as [Hl Hst6].
     apply andb_true_iff in Hst6. destruct Hst6 as [Hin Hst6].
-    assert (Hi7 : inv cs' st7).
-    { unfold st7. apply inv_mutate.
-      - apply inv_emit. apply inv_set_stack_sub; [exact Hi6|]. cbn [forallb]. rewrite Hin, Hst6. reflexivity.
+    assert (Hi7 : inv (record cs4 lidx (PList xs)) (j :: pend) st7).
+    { unfold st7. apply inv_mutate; [|left; reflexivity|].
+      - apply inv_emit. apply inv_set_stack_sub; [exact Hi6r|]. cbn [forallb]. rewrite Hin, Hst6. reflexivity.
       - cbn [emit set_stack next]. cbn [ids_below c inst0 cls forallb] in *. rewrite Hl.
         apply andb_true_iff in Hin. destruct Hin as [Hin _]. rewrite Hin. reflexivity. }
+    assert (Hsub : subst j c inst0 = c) by (cbn [subst inst0]; rewrite Nat.eqb_refl; reflexivity).
     assert (Hs7 : stack st7 = c :: stack st).
-    { unfold st7. apply (mutate_stack j c _ inst0 (stack st)); [reflexivity | | ].
-      - cbn [subst inst0]. rewrite Nat.eqb_refl. reflexivity.
-      - apply (ids_below_all_mono (next st) j); [unfold j; lia | exact Hs0]. }
+    { unfold st7. apply (mutate_stack j c _ inst0 (stack st)); [reflexivity | exact Hsub|].
+      apply (ids_below_all_mono (next st) j); [unfold j; lia | exact Hs0]. }
+    (* the instance's reserved entry followed the mutation *)
+    assert (Hown7 : own_entry iidx st7 c).
+    { intros idx E. unfold st7. apply (mutate_memo_own j c (emit (EBuild inst0 lst) st6) _ idx inst0); [|exact Hsub].
+      cbn [emit memo]. apply Hk6; [apply He5; apply He4; exact (Hown3 idx E)|].
+      cbn [ids_below inst0 cls forallb]. rewrite !andb_true_r. apply Nat.ltb_lt. unfold i. lia. }
+    assert (Hdc : decode c = Some (PSetOrdered xs)).
+    { unfold c, lst, cls. rewrite decode_setordered_eq, (all_some_map_decode _ _ Hd6). reflexivity. }
+    assert (Hn7 : next st1 <= next st6) by (rewrite Hn5 in Hn6; unfold st4 in Hn6; cbn in Hn6; unfold i in *; lia).
+    assert (Hnoc : noccur_all pend c = true).
+    { apply (noccur_fresh_inst pend j _ _ _ _ (next st1) Hp1 (le_n _));
+        [apply noccur_all_noids; reflexivity | apply noccur_all_noids; reflexivity|].
+      cbn [forallb]. rewrite (noccur_all_cons j pend lst Hnol). reflexivity. }
     exists c, st7.
     split; [rewrite Hr1, (run_step_next w st1 EMPTY_TUPLE (push (OTuple []) st1) _ eq_refl),
               (run_step_next w _ NEWOBJ st2 p1 H2), Hr3, (run_step_next w st3 EMPTY_LIST st4 p2 eq_refl), Hr5, Hr6;
             apply run_step_next; exact H7|].
-    split; [exact Hs7|].
-    split; [unfold c, lst, cls; rewrite decode_setordered_eq, (all_some_map_decode _ _ Hd6); reflexivity|].
-    split; [reflexivity|]. split; [intro; discriminate|]. split; [exact Hi7|].
-    unfold st7. cbn [mutate emit set_stack next]. rewrite Hn5 in Hn6. unfold st4 in Hn6. cbn in Hn6. unfold j in *. lia.
+    split; [exact Hs7|]. split; [exact Hdc|]. split; [reflexivity|]. split; [intro; discriminate|]. split; [exact Hnoc|].
+    split; [|split].
+    + apply (inv_record _ pend st7 iidx (PSetOrdered xs) c);
+        [apply (inv_weaken _ j); exact Hi7 | exact Hown7 | exact Hdc | intro; discriminate | exact Hnoc].
+    + unfold st7. cbn [mutate emit set_stack next]. lia.
+    + (* entries that existed before are older than both identities *)
+      intros idx x Hg. assert (Hbx : ids_below (next st) x = true) by (apply (fresh_memo_below st idx x); [split; assumption | exact Hg]).
+      unfold st7. apply mutate_memo_old; [|apply (ids_below_mono (next st) j); [unfold j; lia | exact Hbx]].
+      cbn [emit memo]. apply Hk6; [|apply (ids_below_mono (next st) i); [unfold i; lia | exact Hbx]].
+      apply He5. apply He4. apply He3. unfold st2. cbn [fresh set_stack emit push memo]. apply He1. exact Hg.
 Qed.
 
 (** * the main theorem *)
 
 Theorem chk_sound : forall w, calls_ok w -> forall v, wfp v = true -> types_ok w v -> member_sound w chk v.
 Proof.
-  intros w Hco. induction v using pv_ind'; intros Hw Ht cs prog cs' rest Hc st Hinv.
-  - (* atom *) destruct prog as [|p r]; [discriminate|]. cbn [chk] in Hc.
+  intros w Hco. induction v using pv_ind'; intros Hw Ht cs prog cs' rest Hc pend st Hinv Hp.
+  - destruct prog as [|p r]; [discriminate|]. cbn [chk] in Hc.
     destruct (match get_index p with Some i => chk_get cs (PAtom a) i | None => false end) eqn:Eg.
-    + inversion Hc; subst. exact (get_case w (PAtom a) cs' p rest st Eg Hinv).
-    + exact (atom_case w a cs (p :: r) cs' rest st Hc Hinv).
-  - exact (floatbits_case w b cs prog cs' rest st Hc Hinv).
-  - refine (list_case w xs _ cs prog cs' rest st Hc Hinv).
+    + inversion Hc; subst. exact (get_case w (PAtom a) cs' pend p rest st Eg Hinv).
+    + exact (atom_case w a cs pend (p :: r) cs' rest st Hc Hinv).
+  - exact (floatbits_case w b cs prog cs' rest pend st Hc Hinv).
+  - refine (list_case w xs _ cs prog cs' rest pend st Hc Hinv Hp).
     apply (Forall_wfp_types w _ _ H); [exact Hw | exact Ht].
-  - refine (tuple_case w xs _ cs prog cs' rest st Hc Hinv).
+  - refine (tuple_case w xs _ cs prog cs' rest pend st Hc Hinv Hp).
     apply (Forall_wfp_types w _ _ H); [exact Hw | exact Ht].
   - cbn [wfp] in Hw. apply andb_true_iff in Hw. destruct Hw as [Hnd Hw].
-    refine (dict_case w kvs _ Hnd cs prog cs' rest st Hc Hinv).
+    refine (dict_case w kvs _ Hnd cs prog cs' rest pend st Hc Hinv Hp).
     apply (Forall_wfp_types_kv w (member_sound w chk) _ H); [exact Hw | exact Ht].
-  - exact (set_case w xs Hw cs prog cs' rest st Hc Hinv).
-  - exact (frozen_case w xs Hw cs prog cs' rest st Hc Hinv).
-  - (* type *) destruct prog as [|p r]; [discriminate|]. cbn [chk] in Hc.
+  - exact (set_case w xs Hw cs prog cs' rest pend st Hc Hinv Hp).
+  - exact (frozen_case w xs Hw cs prog cs' rest pend st Hc Hinv).
+  - destruct prog as [|p r]; [discriminate|]. cbn [chk] in Hc.
     destruct (match get_index p with Some i => chk_get cs (PType m n) i | None => false end) eqn:Eg.
-    + inversion Hc; subst. exact (get_case w (PType m n) cs' p rest st Eg Hinv).
+    + inversion Hc; subst. exact (get_case w (PType m n) cs' pend p rest st Eg Hinv).
     + assert (Hfc : find_class w m n = FCResolved GType) by (apply Ht; left; reflexivity).
-      destruct (type_sound w m n cs (p :: r) cs' rest st Hc Hinv Hfc) as [st' [Hr [Hs [Hn Hi]]]].
+      destruct (type_sound w m n cs pend (p :: r) cs' rest st Hc Hinv Hfc) as [st' [Hr [Hs [Hn [Hi He]]]]].
       exists (OGlobal m n GType), st'. split; [exact Hr|]. split; [exact Hs|]. split; [reflexivity|].
-      split; [reflexivity|]. split; [reflexivity|]. split; [exact Hi | lia].
-  - exact (nonetype_case w cs prog cs' rest st Hc Hinv).
-  - (* opcode *) cbn [wfp] in Hw. apply andb_true_iff in Hw. destruct Hw as [Hw1 Hw2].
-    refine (opcode_case w tag i1 i2 j1 j2 v1 v2 Hco _ _ _ cs prog cs' rest st Hc Hinv).
+      split; [reflexivity|]. split; [reflexivity|]. split; [apply noccur_all_noids; reflexivity|].
+      split; [exact Hi|]. split; [lia | exact He].
+  - exact (nonetype_case w cs prog cs' rest pend st Hc Hinv).
+  - cbn [wfp] in Hw. apply andb_true_iff in Hw. destruct Hw as [Hw1 Hw2].
+    refine (opcode_case w tag i1 i2 j1 j2 v1 v2 Hco _ _ _ cs prog cs' rest pend st Hc Hinv Hp).
     + apply Ht. left. reflexivity.
     + apply IHv1; [exact Hw1|]. intros m n Hin. apply Ht. cbn. right. apply in_or_app. left. exact Hin.
     + apply IHv2; [exact Hw2|]. intros m n Hin. apply Ht. cbn. right. apply in_or_app. right. exact Hin.
-  - (* SetOrdered *) refine (setordered_case w xs Hco _ _ cs prog cs' rest st Hc Hinv).
+  - refine (setordered_case w xs Hco _ _ cs prog cs' rest pend st Hc Hinv Hp).
     + apply Ht. left. reflexivity.
     + apply (Forall_wfp_types w _ _ H); [exact Hw|]. intros m n Hin. apply Ht. cbn. right. exact Hin.
 Qed.
 
-Lemma inv_init : forall w, inv cs0 (init w).
+Lemma inv_init : forall w, inv cs0 [] (init w).
 Proof. intro w. split; [split; reflexivity|]. split; [reflexivity|]. intros i v H. discriminate. Qed.
 
 (* every encoding in the class loads to the payload it was checked against *)
@@ -1374,7 +1837,7 @@ Proof.
   { unfold p2. destruct p1 as [|q p]; [reflexivity|]. destruct q; try reflexivity. }
   destruct (chk d cs0 p2) as [[cs' pp]|] eqn:Ec; [|discriminate].
   destruct pp as [|q rest]; [discriminate|]. destruct q; try discriminate.
-  destruct (chk_sound w Hco d Hw Ht cs0 p2 cs' _ Ec (init w) (inv_init w)) as [o [st' [Hr [Hs [Hd [Hm _]]]]]].
+  destruct (chk_sound w Hco d Hw Ht cs0 p2 cs' _ Ec [] (init w) (inv_init w) (Forall_nil _)) as [o [st' [Hr [Hs [Hd [Hm _]]]]]].
   unfold load, vm_run. rewrite E1, E2, Hr. cbn [run step]. rewrite Hs. cbn [pop1]. rewrite Hm. cbn. exact Hd.
 Qed.
 
@@ -1413,5 +1876,14 @@ Definition cpython_style_payload : pv :=
                          (AStr (s2p "old_value"), PAtom (AInt 1%Z));
                          (AStr (s2p "new_value"), PAtom (AStr (s2p "new_type")))])])].
 Example accepts_cpython_style : accepts cpython_style_dump cpython_style_payload = true.
+Proof. vm_compute. reflexivity. Qed.
+(* one list reachable twice: memoised when created, fetched when complete *)
+Definition shared_list_dump : list op :=
+  [PROTO 4; FRAME 30; EMPTY_DICT; MEMOIZE; MARK;
+   BININT1 0; EMPTY_LIST; MEMOIZE; MARK; BININT1 1; BININT1 2; APPENDS;
+   BININT1 3; BINGET 1; SETITEMS; STOP].
+Definition shared_list_payload : pv :=
+  PDict [(AInt 0%Z, PList [PAtom (AInt 1%Z); PAtom (AInt 2%Z)]); (AInt 3%Z, PList [PAtom (AInt 1%Z); PAtom (AInt 2%Z)])].
+Example accepts_shared_list : accepts shared_list_dump shared_list_payload = true.
 Proof. vm_compute. reflexivity. Qed.
 Local Close Scope string_scope.
